@@ -1,7 +1,11 @@
 import Bardolph.Proofs.SimLoad
 import Bardolph.Proofs.SimCalls
+import Bardolph.Proofs.SimVals
+import Bardolph.Proofs.SimTop
+import Bardolph.Proofs.SimDefs
 /-!
-# C01 — the compiled code does what the source says (simulation, partial)
+# C01 — the compiled code does what the source says (simulation; scripts of the fragment with
+routine definitions anywhere, through the loader)
 
 `Sem` is the source-level semantics (the specification), `Gen` the code generator, `Vm` the
 machine.  For every block of the fragment `Sim.FragBlock` (below) and every fuel: if the source
@@ -11,36 +15,101 @@ finitely many steps a state `s'` related to `σ'`, with the program counter just
 (`C01_gen_sim_partial`; with `break`, inside loops and inside routines: `C01_gen_sim_block`).
 
 `Sim.Sim K stk σ s` (`Proofs/Sim.lean`, `SimU` with no pending `printf` values) says: both are
-running; `s` has an empty evaluation stack and no pending output; its frame stack is the loop
-frames `stk` of the current activation on top of — at top level (`K.ret = none`) nothing, with
-`σ.locals = none`; inside a routine call (`K.ret = some (ret, rest)`) the call frame holding
-exactly `σ.locals` with return address `ret`, on top of the caller's frames `rest`;
-`σ.routines` is the script's routine table `K.routines`; and globals, constants (macros), lights,
+running; `s` has no pending output; `stk : Sim.Stk` are the control stacks of the current
+activation as the generated code sees them between two statements — its loop frames `stk.frames`
+(innermost first) and the evaluation stack `stk.ev`, which is exactly `s.eval` (EMPTY at top level
+outside loops over names; inside such a loop it holds the names still to visit, inside a callee the
+caller's stack) and which is what the loop frames recorded (`Sim.EvOk`: below what was pushed since
+the innermost `LOOP` lies the stack as it was at that `LOOP`, whose height the frame holds; at the
+bottom the stack on entry of the activation); the frame stack of `s` is `stk.frames` on top of — at
+top level (`K.ret = none`) nothing, with
+`σ.locals = none`; inside a routine call (`K.ret = some (ret, rest, ev)`) the call frame holding
+exactly `σ.locals` with return address `ret`, on top of the caller's frames `rest` (and `ev` is the
+caller's evaluation stack, which a `return` restores);
+`σ.routines` is the script's routine table `K.routines`; `Sim.RegsOk`: the unit-mode register holds
+a unit mode and `disc_forward` is false (invariants of every run from the initial state: the code of
+`cycle` loops tests the former, the discovery instructions walk backwards because of the latter);
+and globals, constants (macros), lights,
 the trace of events (device commands, delays, output), default colour, matrix, random draws and
 EVERY register except `result` are EQUAL.  `result` is the generated code's scratch register
 (conditions, printed values, `get` names, arguments and returned values pass through it); the
 source semantics does not model it.
 
-The fragment (`Sim.FragStmt` / `FragBlock` / `FragOperand(s)` in `Proofs/SimStmts.lean`):
-* value positions (`Sim.RvOK`): literal, variable, register other than `result`, or a call-free
-  expression of any depth that does not read `result`;
-* `setReg r v` (`r ≠ unitMode`), `assign`, `print`, `println`, `printf` (at least as many
+The fragment (`Sim.FragStmt V` / `FragBlock V` / `FragOperand(s) V` in `Proofs/SimStmts.lean`; the
+parameter `V : String → Prop` says which routines may be called FOR THEIR VALUE, see below):
+* value positions WITH CALLS (`Sim.RvC V`, `ExprC V`, `ArgsC V` in `Proofs/SimX.lean`): literal,
+  variable, register other than `result`, `{expression}` of any depth — operators, parentheses and
+  calls `f(args)` —, `[f args]`; the arguments of a call are value positions of the same kind (calls
+  as arguments of calls, to any depth), the parameter names distinct, the routine in `V`;
+  call-free value positions (`Sim.RvOK`) are the same without the calls;
+* EVERY value position of every statement below is a value position WITH CALLS, except the
+  arguments of `printf`, which are call-free;
+* `setReg r v` (`Sim.SettableReg r`: `r ≠ unitMode`, `r ≠ discForward`), `assign n v`, `print v`,
+  `println v`, `get v`; `printf` (call-free arguments, at least as many
   positional fields as arguments, no field named `result`), `defMacro`, `wait`, `units`, `timeAt`;
-* `actAll`, `setDefault`, `get`, `stage`, `action k ops` with operands `light`/`group`/`location`
-  (name as string or variable), `zone`, `matrixInline`, `matrixBlock` with ANY body of the fragment;
-* `ite` with or without `else`, nested to any depth;
-* `repeat_ (.count n)`, `repeat_ (.while_ c)`, `repeat_ .forever`, nested to any depth, with
-  `brk` anywhere in their bodies (inside `ite`, inside a matrix body, …);
-* `call f ps as` as a statement, of a routine of the script or a built-in, with simple arguments
-  (literal, variable, register other than `result`) and distinct parameter names — any depth of
-  nesting and recursion (the induction is on the fuel of `Sem`, not on the program); `ret v`
-  from any loop depth inside a routine.  The routines are given by the hypothesis
-  `Sim.RoutinesAt img R`: every routine of the table `R` has a body of the fragment whose code,
+* `actAll`, `setDefault`, `stage`, `action k ops` with operands `light`/`group`/`location`
+  (name as string or variable), `zone`, `matrixInline`, `matrixBlock` with ANY body
+  of the fragment;
+* `ite c t e` with or without `else`, nested to any depth;
+* EVERY form of `repeat`, nested to any depth, with `brk` anywhere in the bodies (inside `ite`,
+  inside a matrix body, …): `repeat_ (.count n)`, `repeat_ (.while_ c)`, `repeat_ .forever`; the
+  index-variable forms
+  `repeat_ (.range v a b)` (`repeat with v from a to b`), `repeat_ (.interp n v a b)`
+  (`repeat n with v from a to b`), `repeat_ (.cycle n v start)` (`repeat n with v cycle [start]`)
+  — the body may read and ASSIGN the index variable, and the variable may be read after the loop —;
+  and the loops over names `repeat_ (.all lv w)`, `(.groups lv w)`, `(.locations lv w)`,
+  `(.iter items lv w)` (`repeat all|group|location|in a and group g and location l … as lv [with
+  v from a to b | with v cycle [s]]`), a `break` or `return` inside
+  which drops the names still waiting on the evaluation stack;
+* `call f ps as` as a statement and `ret v` from any loop depth inside a routine, arguments and
+  returned value being value positions WITH CALLS — any depth of
+  nesting and recursion (the induction is on the fuel of `Sem`, not on the program), also from
+  inside loops over names and from inside expressions (the callee runs above the caller's evaluation
+  stack, with the operands of the expression under evaluation and the `CTX` frames of the calls
+  whose arguments are being evaluated in place: `Sim.SimX`).  The routines are given by the hypothesis
+  `Sim.RoutinesAt V img R`: every routine of the table `R` has a body of the fragment whose code,
   followed by `END`, sits at the address the image's routine table gives (as the loader lays
-  routines out), and no other name is in the image's table.
-Not covered: routine DEFINITIONS inside the block (the loader's relocation); calls in value
-positions (`[f x]`, `{… f(x) …}`); the `repeat` forms with an index variable or over
-lights/groups/locations.
+  routines out), no other name is in the image's table, and the routines in `V` END WITH A `return`
+  (`Sim.EndsRet`).  Built-in functions may always be called for their value.
+Why `V`: a routine that runs off its end leaves the `result` register as the last statement left it
+(the machine has no instruction that clears it), so `assign x [f]` with such an `f` assigns stale
+scratch on the machine — and on the REAL implementation — while `Sem` says `None`
+(`define f begin print 5 end  assign x [f]  print x` prints 5 twice on the real machine).  Calls as
+STATEMENTS need no such condition.
+Routine DEFINITIONS are covered by `C01_gen_sim_defs` (below), wherever they stand — top level,
+inside `if` branches, `repeat` bodies and matrix-block bodies, at any depth (`Sim.DefBlock V b`: the script with every
+definition replaced by a statement that does nothing, `Sim.stripB b`, is in the fragment, and the
+bodies of the definitions are blocks of the fragment): the hypothesis `RoutinesAt` is PROVED of
+the image `Loader.load` makes, and the machine runs from its initial state — through the loader's
+`JUMP` over the routines — to `halted`.  (`C01_gen_sim_top` is the earlier, direct proof for
+definitions at the top level only.)
+Not covered: routine definitions inside routine bodies (rejected by the compiler); calls in the
+arguments
+of `printf` (values already queued for the `printf` would have to survive the call: the relation
+in a callee has no pending output).
+
+Changes of `Sem` made together with these extensions (the statements of the theorems did not change
+in form — `stk` is now a `Sim.Stk`, `C01_gen_sim_return` also says which evaluation stack is left —
+their meaning follows `Sem`; all of it was validated against the REAL implementation by
+`./check C04`, `C01`, `C03`, `C15`):
+* the index variable of the `with` forms is an ordinary
+  variable, as on the machine — the operands are evaluated once, in the order of the generated code;
+  the variable is given its first value whatever the count (a count of 0 or a negative count makes
+  no pass but still assigns it); after every pass that runs to its end the increment is ADDED to what
+  the variable then holds (`Sem.execPasses`), so after the loop it is one increment past its last
+  value, `break` leaves it as it is, and an assignment in the body carries over to the next pass
+  (the number of passes is not affected).  Before, `Sem` bound precomputed values pass by pass and
+  assigned nothing without a pass — which the machine does not do; `harness/c04.py` reads the
+  variable after loops of every form against the real implementation;
+* `Sem.collect` also collects the routine definitions inside the bodies of MATRIX BLOCKS (the
+  loader extracts them like any other, and the real implementation runs
+  `set "m" begin define f begin print 7 end stage row 0 end  f`; `Sem` said "unknown routine f");
+* the sources of `repeat in a and b and …` are EVALUATED from the last to the first (they are
+  still VISITED in the order written; only calls in the names of sources could tell, and those are
+  outside the fragment); the members of a group or location are visited once each (`dedupSorted`;
+  the real directory cannot hold two lights of one name, the model's list of lights can); and a
+  loop over names leaves the kind of what it walked (`light`, `group`, `location`) in the `operand`
+  register, which the discovery instructions read (`print operand` would show it).
 
 The full statement (`gen_sim`, DESIGN §6 C01), of which the theorems below are the part proved:
 
@@ -50,20 +119,37 @@ The full statement (`gen_sim`, DESIGN §6 C01), of which the theorems below are 
         ∃ k, (run (Loader.load code) k (Vm.init lights)).status = .halted ∧
           (Vm.finish (run (Loader.load code) k (Vm.init lights))).trace = .flush :: σ'.vm.trace
 
-for every well-formed script `b` (all statement forms, routines defined anywhere at top level).
-`C01_gen_sim_loaded` is exactly this statement with `WellFormed` replaced by `Sim.FragBlock`
-(a script of the fragment defines no routines, so its calls can only be to built-ins).
+for every well-formed script `b` (all statement forms, routines defined anywhere).
+`C01_gen_sim_defs` is exactly this statement with `WellFormed b` replaced by
+`Sim.DefBlock V b ∧ Closed.wsBlock Kn false false false b = true`: statements of the fragment and
+routine definitions (top level or nested in `if` / `repeat` / matrix-block bodies) with bodies of the fragment
+(those in `V` ending with `return`), accepted by the scope check that the compiler makes
+(`Closed.wsBlock`, the predicate of C06: calls of known names only, `return` only inside routines,
+`break` only inside loops, no definition inside a routine).  The scope check is used through C06's
+`Closed.closed_stmt` / `closed_block`: every jump of a piece of generated code stays inside that
+piece.  `C01_gen_sim_loaded` is the special case without definitions (there with no scope
+hypothesis), `C01_gen_sim_top` the case of top-level definitions proved directly.
+How `C01_gen_sim_defs` is proved:
+* `Sim.strip_sem` (`Proofs/SimDefs.lean`): `Sem` computes the same for `b` and for `stripB b`
+  (every `defRoutine` replaced by `time at` with no pattern, which does nothing and compiles to no
+  code) — a definition acts through `Sem.collect`, not where it stands;
+* `Sim.mloc_stmt` / `mloc_block` (`Proofs/SimReloc.lean`): the loader's main part of the code of
+  `b` — sections cut out, jumps re-measured between the new positions — IS the code of `stripB b`.
+  `mloc` of a piece whose jumps stay inside it does not depend on the surrounding program
+  (`mctx_closed`), so it is computed piece by piece (`InCtx`); the shapes with jumps ACROSS
+  sub-blocks are mapped to themselves: `mloc_genIf_none`, `mloc_genIf_some`, `mloc_assembleLoop`
+  (whose `break` jumps are handled by `InCtx.patch`: patching commutes with the loader);
+* `Sim.load_defs`: hence `Loader.load code` is `JUMP`, the sections in the order of `Sem.collect`
+  (C06's `split_block` + `Sim.defsB_collect`), the code of `stripB b`, with the routine table of
+  `Sim.routinesAt_image` (`spans_forall2` + `find_rev_forall2`: the table is searched from its
+  reversed end, so the LAST definition of a name wins, as in `Sem.run`);
+* `C01_gen_sim_partial` for `stripB b` does the rest.
 What is missing for the full statement:
-* routine definitions: that the image `Loader.load` makes of a script with `defRoutine`
-  statements satisfies `Sim.RoutinesAt` and has the main code, with its jumps shortened around the
-  extracted routines, equal to the code of the script without the definitions (the third example
-  below checks this for one script by evaluation);
-* calls in value positions: `Sem.evalRv`/`evalExpr` with a state-changing call, the value coming
-  back in `result` (`RetPost` would have to relate `σ'.result` to the register), and
-  `C02_postfix_eval` for expressions containing calls;
-* the index-variable and iterator forms of `repeat` (`range`, `interp`, `cycle`, `all`, `groups`,
-  `locations`, `iter`): the arithmetic of `Sem.execLoop`'s `series` against the generated
-  increment code, and the discovery instructions with names on the evaluation stack.
+* calls in the arguments of `printf` (values already queued for the `printf` would have to survive
+  the call: the relation would need the queue of the caller as a base below the callee's own, and
+  every `printf` run above a non-empty base would have to take exactly as many values as it has
+  fields — the real parser reads exactly that many, the fragment allows fewer), and value calls of
+  routines that may run off their end (see `V` above);
 Restrictions of the fragment that are forced by the MODEL (source semantics and machine disagree
 outside them; concrete scripts are at the end of this file):
 * `Sem` does not model the `result` register, the generated code uses it as scratch: a script
@@ -72,7 +158,9 @@ outside them; concrete scripts are at the end of this file):
 * `printf` with more arguments than positional fields: the machine writes only the last values
   and keeps the others pending, `Sem` writes them all;
 * `setReg .unitMode v` (not produced by the parser, which emits `units m`): the machine's
-  `MOVEQ … unit_mode` converts the colour registers, `Sem`'s `setReg` does not;
+  `MOVEQ … unit_mode` converts the colour registers, `Sem`'s `setReg` does not; `setReg .discForward v`
+  (the language has no name for that register): with a true value the machine discovers forwards
+  and so visits names in DESCENDING order, `Sem` always ascending;
 * a routine with two parameters of the same name: `Sem.evalArgs` binds the FIRST argument of
   that name (a list searched from the front), the machine's `PARAM` the LAST (`Dict.put`
   overwrites) — hence "distinct parameter names".
@@ -80,77 +168,71 @@ outside them; concrete scripts are at the end of this file):
 namespace Bardolph
 open Vm VmSteps Sem Gen Sim
 
+variable {V : String → Prop}
 variable {img : Image} {K : Ctx}
 
 /-! ## every statement form of the fragment -/
 
-theorem Sim.stmts_zero : StmtsGoal img K 0 := by
+theorem Sim.stmts_zero : StmtsGoal V img K 0 := by
   intro st _ σ σ' o s pc exit stk _ _ _ h ho
   simp only [execStmt, Prod.mk.injEq] at h
   rcases ho with rfl | rfl <;> simp at h
 
-/-- the call statement at fuel `f + 1`, given the block statements at the fuel of the body -/
-theorem Sim.stmt_call_any (f : Nat)
-    (ihB : ∀ g, g + 2 = f + 1 → ∀ r st, BlockGoal img ⟨some (r, st), K.routines⟩ g)
-    (ihBR : ∀ g, g + 2 = f + 1 → ∀ r st, BlockRet img ⟨some (r, st), K.routines⟩ g)
-    (hR : RoutinesAt img K.routines) (g : String) (ps : List String) (as : Args)
-    (has : SimpleArgs as) (hnr : NoResultReg as) (hnd : ps.Nodup) :
-    StmtGoal img K (.call g ps as) (f + 1) := by
-  cases f with
-  | zero => exact stmt_call_one g ps as
-  | succ f => exact stmt_call f (ihB f rfl) (ihBR f rfl) hR g ps as has hnr hnd
-
-theorem Sim.stmts_step (f : Nat) (ihB : BlockGoal img K f) (ihOs : OperandsGoal img K f)
-    (ihL : LoopGoal img K f)
-    (ihCB : ∀ g, g + 2 = f + 1 → ∀ r st, BlockGoal img ⟨some (r, st), K.routines⟩ g)
-    (ihCBR : ∀ g, g + 2 = f + 1 → ∀ r st, BlockRet img ⟨some (r, st), K.routines⟩ g)
-    (hR : RoutinesAt img K.routines) : StmtsGoal img K (f + 1) := by
+theorem Sim.stmts_step (f : Nat) (ihRvs : RvToGoals V img K f) (ihCall : CallGoal V img K f)
+    (ihB : BlockGoal V img K f) (ihOs : OperandsGoal V img K f)
+    (ihL : LoopGoal V img K f) : StmtsGoal V img K (f + 1) := by
   intro st hst
+  have ihRv := ihRvs f (Nat.le_refl f)
   cases st with
-  | setReg r v => exact stmt_setReg f r v hst.1 hst.2
+  | setReg r v => exact stmt_setReg f ihRv r v hst.1 hst.2
   | units m => exact stmt_units f m
   | actAll k => exact stmt_actAll f k
   | setDefault => exact stmt_setDefault f
   | action k ops => exact stmt_action f ihOs k ops hst
-  | get name => exact stmt_get f name hst
+  | get name => exact stmt_get f ihRv name hst
   | wait => exact stmt_wait f
   | timeAt ps => exact stmt_timeAt f ps
-  | assign n v => exact stmt_assign f n v hst
+  | assign n v => exact stmt_assign f ihRv n v hst
   | defMacro n v => exact stmt_defMacro f n v
   | defRoutine n ps body => exact absurd hst (by simp [FragStmt])
-  | call g ps as => exact stmt_call_any f ihCB ihCBR hR g ps as hst.1 hst.2.1 hst.2.2
-  | ret v => exact stmt_ret_goal f v hst
+  | call g ps as => exact stmt_call f ihCall g ps as hst.1 hst.2
+  | ret v => exact stmt_ret_goal f v
   | ite c t e =>
     cases e with
-    | none => exact stmt_ite_none f ihB c hst.1 t hst.2.1
-    | some e => exact stmt_ite_some f ihB c hst.1 t e hst.2.1 hst.2.2
+    | none => exact stmt_ite_none f ihRv ihB c hst.1 t hst.2.1
+    | some e => exact stmt_ite_some f ihRv ihB c hst.1 t e hst.2.1 hst.2.2
   | repeat_ hd body => exact stmt_repeat f ihL hd body hst.1 hst.2
   | brk => exact stmt_brk f
-  | print v => exact stmt_print f v hst
-  | println v => exact stmt_println f v hst
+  | print v => exact stmt_print f ihRv v hst
+  | println v => exact stmt_println f ihRv v hst
   | printf fmt as => exact stmt_printf f fmt as hst.1 hst.2.1 hst.2.2
-  | stage rows cols cf => exact stmt_stage f rows cols cf hst.1 hst.2
+  | stage rows cols cf => exact stmt_stage f ihRvs rows cols cf hst.1 hst.2
 
 /-- all the simulation statements at one fuel level, in every context with the routine table
 `R`: for the outcomes `normal` and `break` anywhere, for `return` inside a routine -/
-structure Sim.AllGoals (img : Image) (R : List (String × Sem.Routine)) (f : Nat) : Prop where
-  stmts : ∀ r, StmtsGoal img ⟨r, R⟩ f
-  block : ∀ r, BlockGoal img ⟨r, R⟩ f
-  operand : ∀ r, OperandGoal img ⟨r, R⟩ f
-  operands : ∀ r, OperandsGoal img ⟨r, R⟩ f
-  loop : ∀ r, LoopGoal img ⟨r, R⟩ f
-  whileI : ∀ r, WhileIter img ⟨r, R⟩ f
-  countI : ∀ r, CountIter img ⟨r, R⟩ f
-  stmtsR : ∀ r st, StmtsRet img ⟨some (r, st), R⟩ f
-  blockR : ∀ r st, BlockRet img ⟨some (r, st), R⟩ f
-  operandR : ∀ r st, OperandRet img ⟨some (r, st), R⟩ f
-  operandsR : ∀ r st, OperandsRet img ⟨some (r, st), R⟩ f
-  loopR : ∀ r st, LoopRet img ⟨some (r, st), R⟩ f
-  whileR : ∀ r st, WhileRet img ⟨some (r, st), R⟩ f
-  countR : ∀ r st, CountRet img ⟨some (r, st), R⟩ f
+structure Sim.AllGoals (V : String → Prop) (img : Image) (R : List (String × Sem.Routine)) (f : Nat) : Prop where
+  stmts : ∀ r, StmtsGoal V img ⟨r, R⟩ f
+  block : ∀ r, BlockGoal V img ⟨r, R⟩ f
+  operand : ∀ r, OperandGoal V img ⟨r, R⟩ f
+  operands : ∀ r, OperandsGoal V img ⟨r, R⟩ f
+  loop : ∀ r, LoopGoal V img ⟨r, R⟩ f
+  whileI : ∀ r, WhileIter V img ⟨r, R⟩ f
+  countI : ∀ r, CountIter V img ⟨r, R⟩ f
+  stmtsR : ∀ r st, StmtsRet V img ⟨some (r, st), R⟩ f
+  blockR : ∀ r st, BlockRet V img ⟨some (r, st), R⟩ f
+  operandR : ∀ r st, OperandRet V img ⟨some (r, st), R⟩ f
+  operandsR : ∀ r st, OperandsRet V img ⟨some (r, st), R⟩ f
+  loopR : ∀ r st, LoopRet V img ⟨some (r, st), R⟩ f
+  whileR : ∀ r st, WhileRet V img ⟨some (r, st), R⟩ f
+  countR : ∀ r st, CountRet V img ⟨some (r, st), R⟩ f
+  expr : ∀ r, ExprGoal V img ⟨r, R⟩ f
+  call : ∀ r, CallGoal V img ⟨r, R⟩ f
+  rv : ∀ r, RvGoal V img ⟨r, R⟩ f
+  args : ∀ r, ArgsGoal V img ⟨r, R⟩ f
+  rvTo : ∀ r, RvToGoal V img ⟨r, R⟩ f
 
-theorem Sim.allGoals_le (img : Image) (R : List (String × Sem.Routine)) (hR : RoutinesAt img R) :
-    ∀ f, ∀ g, g ≤ f → AllGoals img R g := by
+theorem Sim.allGoals_le (img : Image) (R : List (String × Sem.Routine)) (hR : RoutinesAt V img R) :
+    ∀ f, ∀ g, g ≤ f → AllGoals V img R g := by
   intro f
   induction f with
   | zero =>
@@ -160,31 +242,37 @@ theorem Sim.allGoals_le (img : Image) (R : List (String × Sem.Routine)) (hR : R
       fun _ => loop_zero, fun _ => while_zero, fun _ => count_zero,
       fun _ _ => stmts_ret_zero, fun _ _ => block_ret_zero, fun _ _ => operand_ret_zero,
       fun _ _ => operands_ret_zero, fun _ _ => loop_ret_zero, fun _ _ => while_ret_zero,
-      fun _ _ => count_ret_zero⟩
+      fun _ _ => count_ret_zero, fun _ => expr_zero, fun _ => call_zero, fun _ => rv_zero, fun _ => args_zero,
+      fun _ => rvTo_zero⟩
   | succ f ihle =>
     intro g hg
     by_cases hlt : g ≤ f
     · exact ihle g hlt
     · obtain rfl : g = f + 1 := by omega
       have ih := ihle f (Nat.le_refl f)
-      exact ⟨fun r => stmts_step f (ih.block r) (ih.operands r) (ih.loop r)
-          (fun g hg r' st => (ihle g (by omega)).block (some (r', st)))
-          (fun g hg r' st => (ihle g (by omega)).blockR r' st) hR,
+      have rvs : ∀ r, RvToGoals V img ⟨r, R⟩ f := fun r g hg => (ihle g hg).rvTo r
+      exact ⟨fun r => stmts_step f (rvs r) (ih.call r) (ih.block r) (ih.operands r) (ih.loop r),
         fun r => block_step f (ih.stmts r) (ih.block r),
-        fun r => operand_step f (ih.block r), fun r => operands_step f (ih.operand r) (ih.operands r),
-        fun r => loop_step f (ih.whileI r) (ih.countI r),
-        fun r => while_step f (ih.block r) (ih.whileI r),
+        fun r => operand_step f (rvs r) (ih.block r), fun r => operands_step f (ih.operand r) (ih.operands r),
+        fun r => loop_step f (rvs r) (ih.whileI r) (ih.countI r) (fun g hg => (ihle g (by omega)).countI r),
+        fun r => while_step f (ih.rvTo r) (ih.block r) (ih.whileI r),
         fun r => count_step f (ih.block r) (ih.countI r),
-        fun r st => stmts_ret_step f (ih.blockR r st) (ih.operandsR r st) (ih.loopR r st) r st rfl,
+        fun r st => stmts_ret_step f (ih.rvTo _) (ih.blockR r st) (ih.operandsR r st) (ih.loopR r st) r st.1 st.2 rfl,
         fun r st => block_ret_step f (ih.stmts _) (ih.stmtsR r st) (ih.blockR r st),
         fun r st => operand_ret_step f (ih.blockR r st),
         fun r st => operands_ret_step f (ih.operand _) (ih.operandR r st) (ih.operandsR r st),
-        fun r st => loop_ret_step f (ih.whileR r st) (ih.countR r st),
-        fun r st => while_ret_step f (ih.block _) (ih.blockR r st) (ih.whileR r st),
-        fun r st => count_ret_step f (ih.block _) (ih.blockR r st) (ih.countR r st)⟩
+        fun r st => loop_ret_step f (rvs _) (ih.whileR r st) (ih.countR r st)
+          (fun g hg => (ihle g (by omega)).countR r st),
+        fun r st => while_ret_step f (ih.rvTo _) (ih.block _) (ih.blockR r st) (ih.whileR r st),
+        fun r st => count_ret_step f (ih.block _) (ih.blockR r st) (ih.countR r st),
+        fun r => expr_step f (ih.expr r) (ih.call r),
+        fun r => call_step f hR (ih.args r) (fun r' st => ih.block (some (r', st))) (fun r' st => ih.blockR r' st),
+        fun r => rv_step f (ih.expr r) (ih.call r),
+        fun r => args_step f (ih.rv r) (ih.args r),
+        fun r => rvTo_step f (ih.expr r) (ih.call r)⟩
 
-theorem Sim.allGoals (img : Image) (R : List (String × Sem.Routine)) (hR : RoutinesAt img R) (f : Nat) :
-    AllGoals img R f := allGoals_le img R hR f f (Nat.le_refl f)
+theorem Sim.allGoals (img : Image) (R : List (String × Sem.Routine)) (hR : RoutinesAt V img R) (f : Nat) :
+    AllGoals V img R f := allGoals_le img R hR f f (Nat.le_refl f)
 
 /-! ## the theorems -/
 
@@ -192,9 +280,9 @@ theorem Sim.allGoals (img : Image) (R : List (String × Sem.Routine)) (hR : Rout
 any number of enclosing loops `stk`, `break`s resolved to jump to `exit`): if the source says the
 block ends normally, the machine arrives just past the code; if the source says `break`, the
 machine arrives at `exit`; in both cases in a state related to the source-level state. -/
-theorem C01_gen_sim_block (img : Image) (K : Ctx) (hR : RoutinesAt img K.routines) (b : Block)
-    (hb : FragBlock b) (f : Nat) (σ σ' : S)
-    (o : Outcome) (s : State) (pc exit : Nat) (stk : List Frame)
+theorem C01_gen_sim_block (img : Image) (K : Ctx) (hR : RoutinesAt V img K.routines) (b : Block)
+    (hb : FragBlock V b) (f : Nat) (σ σ' : S)
+    (o : Outcome) (s : State) (pc exit : Nat) (stk : Stk)
     (hsim : Sim K stk σ s) (hpc : s.pc = (pc : Int))
     (hc : CodeAt img pc (resolve (genBlock b) pc exit))
     (h : execBlock f b σ = (o, σ')) (ho : o = .normal ∨ o = .brk) :
@@ -204,9 +292,9 @@ theorem C01_gen_sim_block (img : Image) (K : Ctx) (hR : RoutinesAt img K.routine
   exact ⟨k, hk.1, hk.2⟩
 
 /-- the same for a single statement -/
-theorem C01_gen_sim_stmt (img : Image) (K : Ctx) (hR : RoutinesAt img K.routines) (st : Stmt)
-    (hst : FragStmt st) (f : Nat) (σ σ' : S)
-    (o : Outcome) (s : State) (pc exit : Nat) (stk : List Frame)
+theorem C01_gen_sim_stmt (img : Image) (K : Ctx) (hR : RoutinesAt V img K.routines) (st : Stmt)
+    (hst : FragStmt V st) (f : Nat) (σ σ' : S)
+    (o : Outcome) (s : State) (pc exit : Nat) (stk : Stk)
     (hsim : Sim K stk σ s) (hpc : s.pc = (pc : Int))
     (hc : CodeAt img pc (resolve (genStmt st) pc exit))
     (h : execStmt f st σ = (o, σ')) (ho : o = .normal ∨ o = .brk) :
@@ -219,21 +307,21 @@ theorem C01_gen_sim_stmt (img : Image) (K : Ctx) (hR : RoutinesAt img K.routines
 `rest`): if the source says the block ends with `return` — from any depth of `if`, loops and
 matrix bodies — the machine arrives one past the return address with exactly the caller's frames
 left, and everything else as the source says (`Sim.RetPost`). -/
-theorem C01_gen_sim_return (img : Image) (K : Ctx) (hR : RoutinesAt img K.routines) (ret : Nat)
-    (rest : List Frame) (hK : K.ret = some (ret, rest)) (b : Block) (hb : FragBlock b) (f : Nat)
-    (σ σ' : S) (s : State) (pc exit : Nat) (stk : List Frame)
+theorem C01_gen_sim_return (img : Image) (K : Ctx) (hR : RoutinesAt V img K.routines) (ret : Nat)
+    (rest : List Frame) (evc : List Val) (hK : K.ret = some (ret, rest, evc)) (b : Block) (hb : FragBlock V b)
+    (f : Nat) (σ σ' : S) (s : State) (pc exit : Nat) (stk : Stk)
     (hsim : Sim K stk σ s) (hpc : s.pc = (pc : Int))
     (hc : CodeAt img pc (resolve (genBlock b) pc exit)) (h : execBlock f b σ = (.ret, σ')) :
     ∃ k, RetPost K σ' (run img k s) ∧ (run img k s).pc = ((ret + 1 : Nat) : Int) ∧
-      (run img k s).stack = rest := by
+      (run img k s).stack = rest ∧ (run img k s).eval = evc := by
   obtain ⟨Kr, KR⟩ := K
   simp only at hK
   subst hK
-  obtain ⟨k, hk⟩ := (Sim.allGoals img KR hR f).blockR ret rest b hb σ σ' s pc exit stk hsim hpc hc h
-  obtain ⟨r', rest', hK', hpc', hst'⟩ := hk.ctx
+  obtain ⟨k, hk⟩ := (Sim.allGoals img KR hR f).blockR ret (rest, evc) b hb σ σ' s pc exit stk hsim hpc hc h
+  obtain ⟨r', rest', evc', hK', hpc', hst'⟩ := hk.ctx
   simp only [Option.some.injEq, Prod.mk.injEq] at hK'
-  obtain ⟨rfl, rfl⟩ := hK'
-  exact ⟨k, hk, hpc', hst'⟩
+  obtain ⟨rfl, rfl, rfl⟩ := hK'
+  exact ⟨k, hk, hpc', hst', hk.eval⟩
 
 /-- **gen_sim_partial.**  For every statement list `b` of the fragment whose code `code` has no
 unresolved `break` (`Gen.genProgram b = some code`), every fuel, every source-level state `σ`
@@ -244,15 +332,15 @@ many steps, a state with the program counter just past the code that is related 
 In words: the compiled code issues exactly the device commands, waits and output the source
 says, in the same order, and leaves every variable, macro and register (but the scratch register
 `result`) as the source says. -/
-theorem C01_gen_sim_partial (img : Image) (R : List (String × Sem.Routine)) (hR : RoutinesAt img R)
-    (b : Block) (hb : FragBlock b) (code : List Instr)
+theorem C01_gen_sim_partial (img : Image) (R : List (String × Sem.Routine)) (hR : RoutinesAt V img R)
+    (b : Block) (hb : FragBlock V b) (code : List Instr)
     (hcode : Gen.genProgram b = some code) (f : Nat) (σ σ' : S) (s : State) (pc : Nat)
-    (hsim : Sim ⟨none, R⟩ [] σ s) (hpc : s.pc = (pc : Int)) (hc : CodeAt img pc code)
+    (hsim : Sim ⟨none, R⟩ {} σ s) (hpc : s.pc = (pc : Int)) (hc : CodeAt img pc code)
     (h : execBlock f b σ = (.normal, σ')) :
-    ∃ k, (run img k s).pc = ((pc + code.length : Nat) : Int) ∧ Sim ⟨none, R⟩ [] σ' (run img k s) := by
+    ∃ k, (run img k s).pc = ((pc + code.length : Nat) : Int) ∧ Sim ⟨none, R⟩ {} σ' (run img k s) := by
   have hres : resolve (genBlock b) pc (0 : Nat) = code := resolve_of_mapM _ _ hcode pc _
   have hlen : code.length = (genBlock b).length := by rw [← hres, resolve_length]
-  obtain ⟨k, hk1, hk2⟩ := C01_gen_sim_block img ⟨none, R⟩ hR b hb f σ σ' .normal s pc 0 [] hsim hpc
+  obtain ⟨k, hk1, hk2⟩ := C01_gen_sim_block img ⟨none, R⟩ hR b hb f σ σ' .normal s pc 0 {} hsim hpc
     (by rw [hres]; exact hc) h (Or.inl rfl)
   exact ⟨k, by rw [hk1, hlen]; rfl, hk2⟩
 
@@ -260,10 +348,10 @@ theorem C01_gen_sim_partial (img : Image) (R : List (String × Sem.Routine)) (hR
 is exactly the source-level trace — which by the definition of `Sem` consists of one group of
 events per dynamic execution of a statement, in program order — and so are the variables,
 macros, lights and all registers other than `result`. -/
-theorem C01_once_each_in_order (img : Image) (R : List (String × Sem.Routine)) (hR : RoutinesAt img R)
-    (b : Block) (hb : FragBlock b) (code : List Instr)
+theorem C01_once_each_in_order (img : Image) (R : List (String × Sem.Routine)) (hR : RoutinesAt V img R)
+    (b : Block) (hb : FragBlock V b) (code : List Instr)
     (hcode : Gen.genProgram b = some code) (f : Nat) (σ σ' : S) (s : State) (pc : Nat)
-    (hsim : Sim ⟨none, R⟩ [] σ s) (hpc : s.pc = (pc : Int)) (hc : CodeAt img pc code)
+    (hsim : Sim ⟨none, R⟩ {} σ s) (hpc : s.pc = (pc : Int)) (hc : CodeAt img pc code)
     (h : execBlock f b σ = (.normal, σ')) :
     ∃ k, (run img k s).trace = σ'.vm.trace ∧ (run img k s).globals = σ'.vm.globals ∧
       (run img k s).constants = σ'.vm.constants ∧ (run img k s).lights = σ'.vm.lights ∧
@@ -275,14 +363,15 @@ theorem C01_once_each_in_order (img : Image) (R : List (String × Sem.Routine)) 
 
 /-- the initial states of `Sem.run` and of the machine are related -/
 theorem Sim.init (lights : List Light) (rts : List (String × Sem.Routine)) :
-    Sim ⟨none, rts⟩ [] { vm := Vm.init lights, routines := rts } (Vm.init lights) :=
-  ⟨rfl, rfl, LoopsOnly.nil, rfl, rfl, ⟨rfl, rfl⟩, rfl, rfl, rfl, rfl, rfl, rfl, rfl, rfl, fun _ _ => rfl⟩
+    Sim ⟨none, rts⟩ {} { vm := Vm.init lights, routines := rts } (Vm.init lights) :=
+  ⟨rfl, rfl, LoopsOnly.nil, rfl, EvOk.nil, rfl, ⟨rfl, rfl⟩, rfl, ⟨⟨.logical, rfl⟩, rfl⟩, rfl, rfl, rfl, rfl, rfl, rfl, rfl,
+    fun _ _ => rfl⟩
 
 /-- **whole scripts.**  A script of the fragment, compiled by `Gen.genProgram` and placed at
 address 0 of an image that ends with it: if the source-level run (`Sem.run`) ends normally, the
 machine started in its initial state halts, and what `Machine.run` leaves behind
 (`Vm.finish`) is the source-level trace followed by the final flush of the output sink. -/
-theorem C01_gen_sim_program (b : Block) (hb : FragBlock b) (code : List Instr)
+theorem C01_gen_sim_program (b : Block) (hb : FragBlock V b) (code : List Instr)
     (hcode : Gen.genProgram b = some code) (f : Nat)
     (lights : List Light) (σ' : S) (h : Sem.run f b lights = (.normal, σ')) :
     ∃ k, (run ⟨code.toArray, []⟩ k (Vm.init lights)).status = .halted ∧
@@ -290,7 +379,7 @@ theorem C01_gen_sim_program (b : Block) (hb : FragBlock b) (code : List Instr)
   have hc : CodeAt ⟨code.toArray, []⟩ 0 code := by
     have := CodeAt.intro [] code [] []
     simpa using this
-  have hR : RoutinesAt ⟨code.toArray, []⟩ [] := fun name => rfl
+  have hR : RoutinesAt V ⟨code.toArray, []⟩ [] := fun name => rfl
   have h' : execBlock f b { vm := Vm.init lights, routines := [] } = (.normal, σ') := by
     have := h
     simp only [Sem.run, collect_frag b hb, List.reverse_nil] at this
@@ -313,13 +402,183 @@ theorem C01_gen_sim_program (b : Block) (hb : FragBlock b) (code : List Instr)
 /-- **whole scripts, through the loader.**  The same for the image the loader makes of the
 compiled script (`Loader.load`): a script of the fragment has no routines, so the loader leaves
 its code where it is. -/
-theorem C01_gen_sim_loaded (b : Block) (hb : FragBlock b) (code : List Instr)
+theorem C01_gen_sim_loaded (b : Block) (hb : FragBlock V b) (code : List Instr)
     (hcode : Gen.genProgram b = some code) (f : Nat) (lights : List Light) (σ' : S)
     (h : Sem.run f b lights = (.normal, σ')) :
     ∃ k, (run (Loader.load code) k (Vm.init lights)).status = .halted ∧
       (Vm.finish (run (Loader.load code) k (Vm.init lights))).trace = .flush :: σ'.vm.trace := by
   rw [load_fragment b hb code hcode]
   exact C01_gen_sim_program b hb code hcode f lights σ' h
+
+/-- the main code of a script with top-level routine definitions: the definitions do nothing when
+they are reached (the loader has moved their code away), the other statements are simulated one
+after the other -/
+theorem Sim.top_sim (img : Image) (R : List (String × Sem.Routine)) (hR : RoutinesAt V img R) :
+    ∀ (b : Block), TopBlock V b → NoBrk (genBlock b) → ∀ (f : Nat) (σ σ' : S) (s : State) (pc : Nat),
+      Sim ⟨none, R⟩ {} σ s → s.pc = (pc : Int) → CodeAt img pc (mainOf (itemsOf b)) →
+      execBlock f b σ = (.normal, σ') →
+      ∃ k, (run img k s).pc = ((pc + (mainOf (itemsOf b)).length : Nat) : Int) ∧
+        Sim ⟨none, R⟩ {} σ' (run img k s)
+  | .nil, _, _, f, σ, σ', s, pc, hsim, hpc, _, h => by
+    cases f with
+    | zero => simp [execBlock] at h
+    | succ f =>
+      simp only [execBlock, Prod.mk.injEq, true_and] at h
+      subst h
+      exact ⟨0, by simpa [itemsOf, mainOf, Vm.run] using hpc, hsim⟩
+  | .cons st rest, hb, hn, f, σ, σ', s, pc, hsim, hpc, hc, h => by
+    rw [genBlock] at hn
+    have ih := Sim.top_sim img R hR rest hb.2 hn.right
+    have h1 := hb.1
+    cases f with
+    | zero => simp [execBlock] at h
+    | succ f =>
+      simp only [execBlock] at h
+      cases hd : defOf st with
+      | some d =>
+        have hst := defOf_some hd
+        rw [hst] at h
+        cases f with
+        | zero => simp [execStmt] at h
+        | succ f =>
+          have e : execStmt (f + 1) (.defRoutine d.1 d.2.1 d.2.2) σ = (.normal, σ) := rfl
+          rw [e] at h
+          simp only [itemsOf, itemOf, hd, mainOf] at hc ⊢
+          exact ih (f + 1) σ σ' s pc hsim hpc hc h
+      | none =>
+        simp only [TopStmt, hd] at h1
+        simp only [itemsOf, itemOf, hd, mainOf] at hc ⊢
+        cases hx : execStmt f st σ with
+        | mk o σ1 =>
+          rw [hx] at h
+          have ho : o = .normal := by
+            cases o <;> first | rfl | (simp at h)
+          subst ho
+          simp only at h
+          have hcs : CodeAt img pc (resolve (genStmt st) pc (0 : Nat)) := by
+            rw [resolve_noBrk _ hn.left]
+            exact hc.left
+          obtain ⟨k1, hk1, hs1⟩ := C01_gen_sim_stmt img ⟨none, R⟩ hR st h1 f σ σ1 .normal s pc 0 {}
+            hsim hpc hcs hx (Or.inl rfl)
+          simp only [Target] at hk1
+          have hc2 := hc.right
+          simp only [List.length_map] at hc2
+          obtain ⟨k2, hk2, hs2⟩ := ih f σ1 σ' (run img k1 s) (pc + (genStmt st).length) hs1 hk1 hc2 h
+          refine ⟨k1 + k2, ?_, ?_⟩
+          · rw [run_add, hk2]
+            simp only [List.length_append, List.length_map]
+            congr 1
+            omega
+          · rw [run_add]
+            exact hs2
+
+/-- **whole scripts with routine definitions, through the loader.**  A script made of statements
+of the fragment and, at its top level, routine definitions whose bodies are in the fragment
+(`TopBlock`), accepted by the compiler's scope check (`Closed.wsBlock`: calls of known routines
+only, `return` only inside routines, `break` only inside loops), compiled by `Gen.genProgram` and
+loaded by `Loader.load` — which moves the routine bodies in front of the main code, relocates
+the main code's jumps and builds the routine table: if the source-level run (`Sem.run`) ends
+normally, the machine started in its initial state on the loaded image halts, and what
+`Machine.run` leaves behind (`Vm.finish`) is the source-level trace followed by the final flush
+of the output sink. -/
+theorem C01_gen_sim_top (Kn : List String) (b : Block) (hb : TopBlock V b)
+    (hws : Closed.wsBlock Kn false false false b = true) (code : List Instr)
+    (hcode : Gen.genProgram b = some code) (f : Nat) (lights : List Light) (σ' : S)
+    (h : Sem.run f b lights = (.normal, σ')) :
+    ∃ k, (run (Loader.load code) k (Vm.init lights)).status = .halted ∧
+      (Vm.finish (run (Loader.load code) k (Vm.init lights))).trace = .flush :: σ'.vm.trace := by
+  have hnb : NoBrk (genBlock b) := noBrk_of_mapM _ _ hcode
+  have hprog : code = progOf (itemsOf b) := by
+    rw [progOf_itemsOf, ← resolve_noBrk _ hnb 0 (0 : Nat)]
+    exact (resolve_of_mapM _ _ hcode 0 _).symm
+  have hok := itemsOK_of (V := V) b hb hws
+  have hR := routinesAt_top b hb hok hnb
+  rw [← hprog] at hR
+  have himg := load_items _ hok
+  rw [← hprog] at himg
+  generalize Loader.load code = img at hR himg
+  simp only [Sem.run] at h
+  -- the machine gets to the start of the main code
+  have hstart : ∃ (k0 : Nat) (pc : Nat), (run img k0 (Vm.init lights)).pc = (pc : Int) ∧
+      Sim ⟨none, (Sem.collect b).reverse⟩ {} { vm := Vm.init lights, routines := (Sem.collect b).reverse }
+        (run img k0 (Vm.init lights)) ∧ CodeAt img pc (mainOf (itemsOf b)) ∧
+      img.code.size = pc + (mainOf (itemsOf b)).length := by
+    by_cases hs : secsOf (itemsOf b) = []
+    · rw [if_pos hs] at himg
+      refine ⟨0, 0, rfl, Sim.init lights _, ?_, ?_⟩
+      · subst himg
+        have := CodeAt.intro [] (mainOf (itemsOf b)) [] []
+        simpa using this
+      · subst himg; simp
+    · rw [if_neg hs] at himg
+      generalize hrs : (secsOf (itemsOf b)).flatMap Closed.Load.render = rseg at himg
+      have hi : img.code[0]? = some (.jump .always ((rseg.length : Int) + 1)) := by
+        subst himg; simp
+      obtain ⟨k0, hk0, hs0⟩ := Sim.exec_jump (img := img) (pc := 0) .always ((rseg.length : Int) + 1)
+        (rseg.length + 1) (by simp) (Sim.init lights (Sem.collect b).reverse) rfl hi (by simp)
+      refine ⟨k0, rseg.length + 1, hk0, hs0, ?_, ?_⟩
+      · subst himg
+        have := CodeAt.intro (Instr.jump .always ((rseg.length : Int) + 1) :: rseg)
+          (mainOf (itemsOf b)) []
+          ((Closed.Load.secSpans 1 (secsOf (itemsOf b))).map fun p => (p.1, p.2.1)).reverse
+        simpa using this
+      · subst himg; simp; omega
+  obtain ⟨k0, pc, hpc0, hsim0, hc, hsize⟩ := hstart
+  obtain ⟨k, hk1, hk2⟩ := Sim.top_sim img _ hR b hb hnb f _ σ' _ pc hsim0 hpc0 hc h
+  refine ⟨k0 + k + 1, ?_⟩
+  rw [run_add, run_add, run_one _ _ hk2.running]
+  generalize run img k (run img k0 (Vm.init lights)) = t at hk1 hk2
+  have hstep : step img t = { t with status := .halted } := by
+    unfold step
+    have h0 : ¬ (t.pc < 0) := by omega
+    have h1 : t.pc.toNat = img.code.size := by omega
+    rw [if_neg (by simp [hk2.running]), if_neg h0, h1]
+    simp
+  rw [hstep]
+  refine ⟨rfl, ?_⟩
+  simp only [Vm.finish, hk2.unnamed, List.foldl_nil, State.emit, hk2.trace]
+
+/-- **whole scripts with routine definitions anywhere, through the loader.**  A script whose
+routine definitions stand at the top level or inside `if` / `repeat` bodies, at any depth
+(`DefBlock V`: without the definitions it is a script of the fragment, the bodies of the
+definitions are blocks of the fragment), accepted by the compiler's scope check
+(`Closed.wsBlock`), compiled by `Gen.genProgram` and loaded by `Loader.load` — which cuts the
+routine sections out of the code wherever they are, shortens the jumps of the main code that span
+them, and builds the routine table: if the source-level run (`Sem.run`) ends normally, the machine
+started in its initial state on the loaded image halts, and what `Machine.run` leaves behind
+(`Vm.finish`) is the source-level trace followed by the final flush of the output sink. -/
+theorem C01_gen_sim_defs (Kn : List String) (b : Block) (hb : DefBlock V b)
+    (hws : Closed.wsBlock Kn false false false b = true) (code : List Instr)
+    (hcode : Gen.genProgram b = some code) (f : Nat) (lights : List Light) (σ' : S)
+    (h : Sem.run f b lights = (.normal, σ')) :
+    ∃ k, (run (Loader.load code) k (Vm.init lights)).status = .halted ∧
+      (Vm.finish (run (Loader.load code) k (Vm.init lights))).trace = .flush :: σ'.vm.trace := by
+  obtain ⟨main, pc, hmain, hR, hc, hsize, hjump⟩ := image_defs b hb hws code hcode
+  generalize Loader.load code = img at hR hc hsize hjump
+  simp only [Sem.run] at h
+  rw [← strip_sem] at h
+  have hstart : ∃ (k0 : Nat), (run img k0 (Vm.init lights)).pc = (pc : Int) ∧
+      Sim ⟨none, (Sem.collect b).reverse⟩ {} { vm := Vm.init lights, routines := (Sem.collect b).reverse }
+        (run img k0 (Vm.init lights)) := by
+    rcases hjump with rfl | hi
+    · exact ⟨0, rfl, Sim.init lights _⟩
+    · obtain ⟨k0, hk0, hs0⟩ := Sim.exec_jump (img := img) (pc := 0) .always (pc : Int) pc (by simp)
+        (Sim.init lights (Sem.collect b).reverse) rfl hi (by simp)
+      exact ⟨k0, hk0, hs0⟩
+  obtain ⟨k0, hpc0, hsim0⟩ := hstart
+  obtain ⟨k, hk1, hk2⟩ := C01_gen_sim_partial img _ hR (stripB b) hb.1 main hmain f _ σ' _ pc hsim0 hpc0 hc h
+  refine ⟨k0 + k + 1, ?_⟩
+  rw [run_add, run_add, run_one _ _ hk2.running]
+  generalize run img k (run img k0 (Vm.init lights)) = t at hk1 hk2
+  have hstep : step img t = { t with status := .halted } := by
+    unfold step
+    have h0 : ¬ (t.pc < 0) := by omega
+    have h1 : t.pc.toNat = img.code.size := by omega
+    rw [if_neg (by simp [hk2.running]), if_neg h0, h1]
+    simp
+  rw [hstep]
+  refine ⟨rfl, ?_⟩
+  simp only [Vm.finish, hk2.unnamed, List.foldl_nil, State.emit, hk2.trace]
 
 /-! ## non-vacuity
 
@@ -406,8 +665,8 @@ def c01Code : List Instr := [
   .out .printEnd (.lit .none),
   .moveq (.bool true) (.reg .power), .wait, .moveq (.operand .all) (.reg .operand), .power]
 
-theorem c01Script_frag : FragBlock c01Script := by
-  simp only [c01Script, Block.ofList, FragBlock, FragStmt, FragOperands, FragOperand, RvOK, LoopHdrOK]
+theorem c01Script_frag : FragBlock (fun _ => True) c01Script := by
+  simp only [c01Script, Block.ofList, FragBlock, FragStmt, RvC, ExprC, ArgsC, FragOperands, FragOperand, RvOK, LoopHdrOK]
   refine ⟨?_, ?_, ?_, ?_, ?_, ?_, ?_, ?_, ?_, ?_, ?_, ?_⟩
   all_goals first
     | trivial
@@ -564,8 +823,8 @@ def c01Code2 : List Instr :=
   Instr.moveq (Val.operand (Operand.all)) (Dst.reg (Reg.operand)),
   Instr.color]
 
-theorem c01Script2_frag : FragBlock c01Script2 := by
-  simp only [c01Script2, Block.ofList, FragBlock, FragStmt, FragOperands, FragOperand, RvOK, LoopHdrOK,
+theorem c01Script2_frag : FragBlock (fun _ => True) c01Script2 := by
+  simp only [c01Script2, Block.ofList, FragBlock, FragStmt, RvC, ExprC, ArgsC, FragOperands, FragOperand, RvOK, LoopHdrOK,
     ORangeOK, RangeOK]
   refine ⟨?_, ?_, ?_, ?_, ?_, ?_, ?_, ?_, ?_, ?_, ?_, ?_, ?_⟩
   all_goals first
@@ -693,16 +952,16 @@ def callImg : Image :=
 
 def callRoutines : List (String × Sem.Routine) := [("down", ⟨["n"], downBody⟩)]
 
-theorem downBody_frag : FragBlock downBody := by
-  simp only [downBody, Block.ofList, FragBlock, FragStmt, RvOK, LoopHdrOK, NoResultReg]
+theorem downBody_frag : FragBlock (fun _ => False) downBody := by
+  simp only [downBody, Block.ofList, FragBlock, FragStmt, RvC, ExprC, ArgsC, RvOK, LoopHdrOK, NoResultReg]
   refine ⟨?_, ?_, ?_, ?_, ?_, ?_⟩
   all_goals first
     | trivial
     | decide
     | (repeat' constructor) <;> first | trivial | decide | nofun
 
-theorem mainBlock_frag : FragBlock mainBlock := by
-  simp only [mainBlock, Block.ofList, FragBlock, FragStmt, RvOK, NoResultReg]
+theorem mainBlock_frag : FragBlock (fun _ => False) mainBlock := by
+  simp only [mainBlock, Block.ofList, FragBlock, FragStmt, RvC, ExprC, ArgsC, RvOK, NoResultReg]
   refine ⟨?_, ?_, ?_, ?_, ?_, ?_, ?_⟩
   all_goals first
     | trivial
@@ -726,11 +985,11 @@ example : (Loader.load ([Instr.routine "down"] ++ downCode ++ [Instr.end_ "down"
     (Loader.load ([Instr.routine "down"] ++ downCode ++ [Instr.end_ "down"] ++ mainCode)).routines =
       callImg.routines := by decide +kernel
 
-theorem callImg_routines : RoutinesAt callImg callRoutines := by
+theorem callImg_routines : RoutinesAt (fun _ => False) callImg callRoutines := by
   intro name
   by_cases h : name = "down"
   · subst h
-    refine ⟨downBody_frag, 2, "down", rfl, ?_⟩
+    refine ⟨downBody_frag, fun h => h.elim, 2, "down", rfl, ?_⟩
     rw [resolve_of_mapM _ _ downBody_code]
     exact CodeAt.intro [Instr.jump .always 52, .routine "down"] (downCode ++ [Instr.end_ "down"]) mainCode _
   · have h1 : ("down" == name) = false := by
@@ -751,9 +1010,10 @@ example : ∃ k, (run callImg k { Vm.init [] with pc := 52 }).trace =
       mainCode [] [("down", 2)]
     have hl : downCode.length = 49 := rfl
     simpa [callImg, hl] using this
-  have hsim : Sim ⟨none, callRoutines⟩ [] { vm := Vm.init [], routines := callRoutines }
+  have hsim : Sim ⟨none, callRoutines⟩ {} { vm := Vm.init [], routines := callRoutines }
       { Vm.init [] with pc := 52 } :=
-    ⟨rfl, rfl, LoopsOnly.nil, rfl, rfl, ⟨rfl, rfl⟩, rfl, rfl, rfl, rfl, rfl, rfl, rfl, rfl, fun _ _ => rfl⟩
+    ⟨rfl, rfl, LoopsOnly.nil, rfl, EvOk.nil, rfl, ⟨rfl, rfl⟩, rfl, ⟨⟨.logical, rfl⟩, rfl⟩, rfl, rfl, rfl, rfl, rfl, rfl, rfl,
+    fun _ _ => rfl⟩
   obtain ⟨k, hk, _⟩ := C01_once_each_in_order callImg callRoutines callImg_routines mainBlock
     mainBlock_frag mainCode mainBlock_code 200 _ _ _ 52 hsim rfl hc (eq_of_fst mainBlock_sem)
   exact ⟨k, hk⟩
@@ -766,6 +1026,603 @@ example : (Vm.finish (Vm.run callImg 1000 (Vm.init []))).trace =
 example : (Sem.run 200 wholeScript []).2.vm.trace.reverse =
     [.out (.int 2), .out (.int 1), .out (.int 1), .newline, .out (.int 2),
      .out (.int 1), .out (.int 1), .newline, .out (.int 1), .newline] := by decide +kernel
+
+/-! ### fourth script: the index-variable forms of `repeat` — a descending range left by `break`,
+interpolation with a count of 0 (no pass, the variable is still assigned), `cycle` in raw units;
+the index variables are READ after their loops
+
+```
+repeat with i from 3 to 1 { if {i < 2} { break }  print i }   print i
+repeat 0 with y from 7 to 9 { print y }   print y
+units raw
+repeat 2 with h cycle 100 { print h }   print h
+``` -/
+
+def c01Script3 : Block := Block.ofList [
+  .repeat_ (.range "i" (.lit (.int 3)) (.lit (.int 1)))
+    (Block.ofList [.ite (.expr (.bin .lt (.var "i") (.lit (.int 2)))) (Block.ofList [.brk]) none,
+      .print (.var "i")]),
+  .print (.var "i"),
+  .repeat_ (.interp (.lit (.int 0)) "y" (.lit (.int 7)) (.lit (.int 9))) (Block.ofList [.print (.var "y")]),
+  .print (.var "y"),
+  .units .raw,
+  .repeat_ (.cycle (.lit (.int 2)) "h" (some (.lit (.int 100)))) (Block.ofList [.print (.var "h")]),
+  .print (.var "h")]
+
+/-- what `Gen.genProgram` makes of it (136 instructions) -/
+def c01Code3 : List Instr := [
+  .loop, .moveq (.int 3) (.loopVar .first), .moveq (.int 1) (.loopVar .last),
+  .move (.loopVar .first) (.var "i"), .push (.loopVar .last), .push (.loopVar .first), .op .sub,
+  .pop (.loopVar .counter), .push (.loopVar .counter), .pushq (.int 0), .op .lt, .pop (.reg .result),
+  .jump .ifFalse 7, .push (.loopVar .counter), .pushq (.int (-1)), .op .mul, .pop (.loopVar .counter),
+  .moveq (.int (-1)) (.loopVar .incr), .jump .always 2, .moveq (.int 1) (.loopVar .incr),
+  .push (.loopVar .counter), .pushq (.int 1), .op .add, .pop (.loopVar .counter),
+  .push (.loopVar .counter), .pushq (.int 0), .op .gt, .pop (.reg .result), .jump .ifFalse 19,
+  .push (.var "i"), .pushq (.int 2), .op .lt, .pop (.reg .result), .jump .ifFalse 2, .jump .always 13,
+  .move (.var "i") (.reg .result), .out .register (.reg .result), .out .print (.lit .none),
+  .push (.loopVar .counter), .pushq (.int 1), .op .sub, .pop (.loopVar .counter), .push (.var "i"),
+  .push (.loopVar .incr), .op .add, .pop (.var "i"), .jump .always (-22), .endLoop,
+  .move (.var "i") (.reg .result), .out .register (.reg .result), .out .print (.lit .none), .loop,
+  .moveq (.int 0) (.loopVar .counter), .moveq (.int 7) (.loopVar .first), .moveq (.int 9) (.loopVar .last),
+  .move (.loopVar .first) (.var "y"), .push (.loopVar .counter), .pushq (.int 1), .op .noteq,
+  .pop (.reg .result), .jump .ifFalse 10, .push (.loopVar .last), .push (.loopVar .first), .op .sub,
+  .push (.loopVar .counter), .pushq (.int 1), .op .sub, .op .div, .pop (.loopVar .incr), .jump .always 2,
+  .moveq (.int 0) (.loopVar .incr), .push (.loopVar .counter), .pushq (.int 0), .op .gt,
+  .pop (.reg .result), .jump .ifFalse 13, .move (.var "y") (.reg .result), .out .register (.reg .result),
+  .out .print (.lit .none), .push (.loopVar .counter), .pushq (.int 1), .op .sub, .pop (.loopVar .counter),
+  .push (.var "y"), .push (.loopVar .incr), .op .add, .pop (.var "y"), .jump .always (-16), .endLoop,
+  .move (.var "y") (.reg .result), .out .register (.reg .result), .out .print (.lit .none),
+  .moveq (.mode .raw) (.reg .unitMode), .loop, .moveq (.int 2) (.loopVar .counter),
+  .moveq (.int 100) (.loopVar .first), .move (.loopVar .first) (.var "h"), .push (.loopVar .counter),
+  .pushq (.int 0), .op .eq, .pop (.reg .result), .jump .ifFalse 3, .moveq (.int 0) (.loopVar .incr),
+  .jump .always 12, .push (.reg .unitMode), .pushq (.mode .raw), .op .eq, .pop (.reg .result),
+  .jump .ifFalse 3, .pushq (.int 65536), .jump .always 2, .pushq (.int 360), .push (.loopVar .counter),
+  .op .div, .pop (.loopVar .incr), .push (.loopVar .counter), .pushq (.int 0), .op .gt,
+  .pop (.reg .result), .jump .ifFalse 13, .move (.var "h") (.reg .result), .out .register (.reg .result),
+  .out .print (.lit .none), .push (.loopVar .counter), .pushq (.int 1), .op .sub, .pop (.loopVar .counter),
+  .push (.var "h"), .push (.loopVar .incr), .op .add, .pop (.var "h"), .jump .always (-16), .endLoop,
+  .move (.var "h") (.reg .result), .out .register (.reg .result), .out .print (.lit .none)]
+
+theorem c01Script3_frag : FragBlock (fun _ => True) c01Script3 := by
+  simp only [c01Script3, Block.ofList, FragBlock, FragStmt, RvC, ExprC, ArgsC, RvOK, LoopHdrOK, WithOK]
+  refine ⟨?_, ?_, ?_, ?_, ?_, ?_, ?_, ?_⟩
+  all_goals first
+    | trivial
+    | decide
+    | (repeat' constructor) <;> first | trivial | decide | nofun
+
+set_option maxRecDepth 8000 in
+theorem c01Script3_code : Gen.genProgram c01Script3 = some c01Code3 := by
+  simp [Gen.genProgram, c01Script3, Block.ofList, genBlock, genStmt, genRv, genExpr, genIf, genLoop,
+    assembleLoop, patchBreaks_eq, patchRec, ins, counterTest, testOp, loopPost, counter, result, pushLit,
+    indexVarRange, cycleVarRange, calcCounter, calcIncr, incCounter, c01Code3]
+
+theorem c01Script3_sem : (Sem.run 400 c01Script3 []).1 = .normal := by decide +kernel
+
+/-- `C01_gen_sim_loaded` applied: the loaded, compiled script halts with the source-level trace -/
+example : ∃ k, (run (Loader.load c01Code3) k (Vm.init [])).status = .halted ∧
+    (Vm.finish (run (Loader.load c01Code3) k (Vm.init []))).trace =
+      .flush :: (Sem.run 400 c01Script3 []).2.vm.trace :=
+  C01_gen_sim_loaded c01Script3 c01Script3_frag c01Code3 c01Script3_code 400 []
+    (Sem.run 400 c01Script3 []).2 (eq_of_fst c01Script3_sem)
+
+/-- by evaluation, independently of the theorem -/
+example : (Vm.finish (Vm.run (Loader.load c01Code3) 2000 (Vm.init []))).trace =
+    .flush :: (Sem.run 400 c01Script3 []).2.vm.trace := by decide +kernel
+
+/-- the values: 3 2, then `i` as the `break` left it; `y` assigned although no pass is made;
+100, 100 + 65536/2, and `h` one increment past its last value -/
+example : (Sem.run 400 c01Script3 []).2.vm.trace.reverse =
+    [.out (.int 3), .out (.int 2), .out (.int 1), .out (.int 7),
+     .out (.int 100), .out (.num 32868), .out (.num 65636)] := by decide +kernel
+
+/-! ### fifth script: loops over names — all lights; all groups with a range spread over them; a
+list of sources (a light, a group, a location nobody is in) with `cycle`, left by `break` with
+names still waiting on the evaluation stack; a loop over a group's members nested in a loop over
+locations, the inner one left by `break` in every pass of the outer one
+
+```
+repeat all as L { print L }
+repeat group as G with x from 10 to 20 { print G  print x }
+repeat in "z" and group "g" and location "nowhere" as L with h cycle { print L  print h  if {h > 100} { break } }
+print h
+repeat location as P { repeat in group "g" as M { print M  break }   print P }
+``` -/
+
+def c01Script4 : Block := Block.ofList [
+  .repeat_ (.all "L" none) (Block.ofList [.print (.var "L")]),
+  .repeat_ (.groups "G" (some (.fromTo "x" (.lit (.int 10)) (.lit (.int 20)))))
+    (Block.ofList [.print (.var "G"), .print (.var "x")]),
+  .repeat_ (.iter [.light (.lit (.str "z")), .group (.lit (.str "g")), .location (.lit (.str "nowhere"))] "L"
+      (some (.cycle "h" none)))
+    (Block.ofList [.print (.var "L"), .print (.var "h"),
+      .ite (.expr (.bin .gt (.var "h") (.lit (.int 100)))) (Block.ofList [.brk]) none]),
+  .print (.var "h"),
+  .repeat_ (.locations "P" none) (Block.ofList [
+    .repeat_ (.iter [.group (.lit (.str "g"))] "M" none) (Block.ofList [.print (.var "M"), .brk]),
+    .print (.var "P")])]
+
+/-- what `Gen.genProgram` makes of it (252 instructions) -/
+def c01Code4 : List Instr := [
+  .loop, .moveq (.int 0) (.loopVar .counter), .moveq (.operand .light) (.reg .operand), .disc,
+  .move (.reg .result) (.loopVar .current), .push (.loopVar .current), .push (.lit (.operand .null)),
+  .op .noteq, .pop (.reg .result), .jump .ifFalse 9, .push (.loopVar .counter), .pushq (.int 1), .op .add,
+  .pop (.loopVar .counter), .push (.loopVar .current), .moveq (.operand .light) (.reg .operand),
+  .dnext (.loopVar .current), .jump .always (-13), .push (.loopVar .counter), .pushq (.int 0), .op .gt,
+  .pop (.reg .result), .jump .ifFalse 10, .pop (.var "L"), .move (.var "L") (.reg .result),
+  .out .register (.reg .result), .out .print (.lit .none), .push (.loopVar .counter), .pushq (.int 1),
+  .op .sub, .pop (.loopVar .counter), .jump .always (-13), .endLoop, .loop,
+  .moveq (.int 0) (.loopVar .counter), .moveq (.operand .group) (.reg .operand), .disc,
+  .move (.reg .result) (.loopVar .current), .push (.reg .result), .push (.lit (.operand .null)),
+  .op .noteq, .pop (.reg .result), .jump .ifFalse 9, .push (.loopVar .counter), .pushq (.int 1), .op .add,
+  .pop (.loopVar .counter), .push (.loopVar .current), .moveq (.operand .group) (.reg .operand),
+  .dnext (.loopVar .current), .jump .always (-13), .moveq (.int 10) (.loopVar .first),
+  .moveq (.int 20) (.loopVar .last), .move (.loopVar .first) (.var "x"), .push (.loopVar .counter),
+  .pushq (.int 1), .op .noteq, .pop (.reg .result), .jump .ifFalse 10, .push (.loopVar .last),
+  .push (.loopVar .first), .op .sub, .push (.loopVar .counter), .pushq (.int 1), .op .sub, .op .div,
+  .pop (.loopVar .incr), .jump .always 2, .moveq (.int 0) (.loopVar .incr), .push (.loopVar .counter),
+  .pushq (.int 0), .op .gt, .pop (.reg .result), .jump .ifFalse 17, .pop (.var "G"),
+  .move (.var "G") (.reg .result), .out .register (.reg .result), .out .print (.lit .none),
+  .move (.var "x") (.reg .result), .out .register (.reg .result), .out .print (.lit .none),
+  .push (.loopVar .counter), .pushq (.int 1), .op .sub, .pop (.loopVar .counter), .push (.var "x"),
+  .push (.loopVar .incr), .op .add, .pop (.var "x"), .jump .always (-20), .endLoop, .loop,
+  .moveq (.int 0) (.loopVar .counter), .moveq (.str "nowhere") (.loopVar .first),
+  .moveq (.operand .location) (.reg .operand), .discm (.loopVar .first),
+  .move (.reg .result) (.loopVar .current), .push (.loopVar .current), .push (.lit (.operand .null)),
+  .op .noteq, .pop (.reg .result), .jump .ifFalse 9, .push (.loopVar .counter), .pushq (.int 1), .op .add,
+  .pop (.loopVar .counter), .push (.loopVar .current), .moveq (.operand .location) (.reg .operand),
+  .dnextm
+   (.loopVar .first)
+   (.loopVar .current), .jump .always (-13),
+  .moveq (.str "g") (.loopVar .first), .moveq (.operand .group) (.reg .operand), .discm (.loopVar .first),
+  .move (.reg .result) (.loopVar .current), .push (.loopVar .current), .push (.lit (.operand .null)),
+  .op .noteq, .pop (.reg .result), .jump .ifFalse 9, .push (.loopVar .counter), .pushq (.int 1), .op .add,
+  .pop (.loopVar .counter), .push (.loopVar .current), .moveq (.operand .group) (.reg .operand),
+  .dnextm
+   (.loopVar .first)
+   (.loopVar .current), .jump .always (-13),
+  .moveq (.str "z") (.reg .result), .push (.reg .result), .push (.loopVar .counter), .pushq (.int 1),
+  .op .add, .pop (.loopVar .counter), .moveq (.int 0) (.loopVar .first),
+  .move (.loopVar .first) (.var "h"), .push (.loopVar .counter), .pushq (.int 0), .op .eq,
+  .pop (.reg .result), .jump .ifFalse 3, .moveq (.int 0) (.loopVar .incr), .jump .always 12,
+  .push (.reg .unitMode), .pushq (.mode .raw), .op .eq, .pop (.reg .result), .jump .ifFalse 3,
+  .pushq (.int 65536), .jump .always 2, .pushq (.int 360), .push (.loopVar .counter), .op .div,
+  .pop (.loopVar .incr), .push (.loopVar .counter), .pushq (.int 0), .op .gt, .pop (.reg .result),
+  .jump .ifFalse 23, .pop (.var "L"), .move (.var "L") (.reg .result), .out .register (.reg .result),
+  .out .print (.lit .none), .move (.var "h") (.reg .result), .out .register (.reg .result),
+  .out .print (.lit .none), .push (.var "h"), .pushq (.int 100), .op .gt, .pop (.reg .result),
+  .jump .ifFalse 2, .jump .always 10, .push (.loopVar .counter), .pushq (.int 1), .op .sub,
+  .pop (.loopVar .counter), .push (.var "h"), .push (.loopVar .incr), .op .add, .pop (.var "h"),
+  .jump .always (-26), .endLoop, .move (.var "h") (.reg .result), .out .register (.reg .result),
+  .out .print (.lit .none), .loop, .moveq (.int 0) (.loopVar .counter),
+  .moveq (.operand .location) (.reg .operand), .disc, .move (.reg .result) (.loopVar .current),
+  .push (.reg .result), .push (.lit (.operand .null)), .op .noteq, .pop (.reg .result), .jump .ifFalse 9,
+  .push (.loopVar .counter), .pushq (.int 1), .op .add, .pop (.loopVar .counter),
+  .push (.loopVar .current), .moveq (.operand .location) (.reg .operand), .dnext (.loopVar .current),
+  .jump .always (-13), .push (.loopVar .counter), .pushq (.int 0), .op .gt, .pop (.reg .result),
+  .jump .ifFalse 45, .pop (.var "P"), .loop, .moveq (.int 0) (.loopVar .counter),
+  .moveq (.str "g") (.loopVar .first), .moveq (.operand .group) (.reg .operand), .discm (.loopVar .first),
+  .move (.reg .result) (.loopVar .current), .push (.loopVar .current), .push (.lit (.operand .null)),
+  .op .noteq, .pop (.reg .result), .jump .ifFalse 9, .push (.loopVar .counter), .pushq (.int 1), .op .add,
+  .pop (.loopVar .counter), .push (.loopVar .current), .moveq (.operand .group) (.reg .operand),
+  .dnextm
+   (.loopVar .first)
+   (.loopVar .current), .jump .always (-13), .push (.loopVar .counter),
+  .pushq (.int 0), .op .gt, .pop (.reg .result), .jump .ifFalse 11, .pop (.var "M"),
+  .move (.var "M") (.reg .result), .out .register (.reg .result), .out .print (.lit .none),
+  .jump .always 6, .push (.loopVar .counter), .pushq (.int 1), .op .sub, .pop (.loopVar .counter),
+  .jump .always (-14), .endLoop, .move (.var "P") (.reg .result), .out .register (.reg .result),
+  .out .print (.lit .none), .push (.loopVar .counter), .pushq (.int 1), .op .sub, .pop (.loopVar .counter),
+  .jump .always (-48), .endLoop]
+
+theorem c01Script4_frag : FragBlock (fun _ => True) c01Script4 := by
+  simp only [c01Script4, Block.ofList, FragBlock, FragStmt, RvC, ExprC, ArgsC, RvOK, LoopHdrOK, WithOK, OWithOK,
+    List.forall_mem_cons, ItemOK, List.not_mem_nil, false_imp_iff, implies_true]
+  refine ⟨?_, ?_, ?_, ?_, ?_, ?_⟩
+  all_goals first
+    | trivial
+    | decide
+    | (repeat' constructor) <;> first | trivial | decide | nofun
+
+set_option maxRecDepth 8000 in
+theorem c01Script4_code : Gen.genProgram c01Script4 = some c01Code4 := by
+  simp [Gen.genProgram, c01Script4, Block.ofList, genBlock, genStmt, genRv, genExpr, genIf, genLoop,
+    assembleLoop, patchBreaks_eq, patchRec, ins, counterTest, testOp, loopPost, counter, result, pushLit,
+    indexVarRange, cycleVarRange, calcCounter, calcIncr, incCounter, withClause, withVar, iterLights, iterSets,
+    iterMembers, iterItems, iterItem, iterSkeleton, pushCurrent, c01Code4]
+
+theorem c01Script4_sem : (Sem.run 400 c01Script4 c01Lights2).1 = .normal := by decide +kernel
+
+/-- `C01_gen_sim_loaded` applied: the loaded, compiled script halts with the source-level trace -/
+example : ∃ k, (run (Loader.load c01Code4) k (Vm.init c01Lights2)).status = .halted ∧
+    (Vm.finish (run (Loader.load c01Code4) k (Vm.init c01Lights2))).trace =
+      .flush :: (Sem.run 400 c01Script4 c01Lights2).2.vm.trace :=
+  C01_gen_sim_loaded c01Script4 c01Script4_frag c01Code4 c01Script4_code 400 c01Lights2
+    (Sem.run 400 c01Script4 c01Lights2).2 (eq_of_fst c01Script4_sem)
+
+/-- by evaluation, independently of the theorem -/
+example : (Vm.finish (Vm.run (Loader.load c01Code4) 3000 (Vm.init c01Lights2))).trace =
+    .flush :: (Sem.run 400 c01Script4 c01Lights2).2.vm.trace := by decide +kernel
+
+/-- the values: the lights in name order; the groups with 10 … 20 spread over them; "z", then the
+first member of "g" (the loop is left with "m" still waiting; nobody is in "nowhere"), `h` as the
+`break` left it; per location the first member of "g" -/
+example : (Sem.run 400 c01Script4 c01Lights2).2.vm.trace.reverse =
+    [.out (.str "a"), .out (.str "m"), .out (.str "z"),
+     .out (.str "g"), .out (.int 10), .out (.str "h"), .out (.num 20),
+     .out (.str "z"), .out (.int 0), .out (.str "a"), .out (.num 120), .out (.num 120),
+     .out (.str "a"), .out (.str "home")] := by decide +kernel
+
+/-! ### sixth script: calls in value positions — `[f x]` as the value of an assignment, of a register
+setting, of `print`, of a `repeat` count; calls inside `{…}` expressions (with operands of the
+expression waiting on the evaluation stack during the call); a call as the argument of a call; a
+routine that calls itself inside the expression it returns; a built-in function
+
+```
+define sq with x begin return {x * x} end
+define fact with n begin if {n <= 1} { return 1 }  return {n * fact(n - 1)} end
+assign y [sq 5]
+print {1 + sq(3) * 2}
+print [fact 4]
+hue [sq [sq 2]]   print hue
+repeat [sq 1] { print y }
+if {fact(3) > 5} { print "big" }
+println [round 2.6]
+repeat in "a" and "b" as L { print {10 * sq(2)} }
+```
+(the last call runs with the name "b" — and the operand 10 — on the evaluation stack).
+The image is the one the loader makes of the whole script: a jump over the routines, the two
+routines, the main code. -/
+
+def sqBody : Block := Block.ofList [.ret (some (.expr (.bin .mul (.var "x") (.var "x"))))]
+
+def factBody : Block := Block.ofList [
+  .ite (.expr (.bin .lte (.var "n") (.lit (.int 1)))) (Block.ofList [.ret (some (.lit (.int 1)))]) none,
+  .ret (some (.expr (.bin .mul (.var "n")
+    (.call "fact" ["n"] (.cons (.expr (.bin .sub (.var "n") (.lit (.int 1)))) .nil)))))]
+
+def valMain : Block := Block.ofList [
+  .assign "y" (.call "sq" ["x"] (.cons (.lit (.int 5)) .nil)),
+  .print (.expr (.bin .add (.lit (.int 1))
+    (.bin .mul (.call "sq" ["x"] (.cons (.lit (.int 3)) .nil)) (.lit (.int 2))))),
+  .print (.call "fact" ["n"] (.cons (.lit (.int 4)) .nil)),
+  .setReg .hue (.call "sq" ["x"] (.cons (.call "sq" ["x"] (.cons (.lit (.int 2)) .nil)) .nil)),
+  .print (.reg .hue),
+  .repeat_ (.count (.call "sq" ["x"] (.cons (.lit (.int 1)) .nil))) (Block.ofList [.print (.var "y")]),
+  .ite (.expr (.bin .gt (.call "fact" ["n"] (.cons (.lit (.int 3)) .nil)) (.lit (.int 5))))
+    (Block.ofList [.print (.lit (.str "big"))]) none,
+  .println (some (.call "round" ["x"] (.cons (.lit (.num (13/5))) .nil))),
+  .repeat_ (.iter [.light (.lit (.str "a")), .light (.lit (.str "b"))] "L" none)
+    (Block.ofList [.print (.expr (.bin .mul (.lit (.int 10)) (.call "sq" ["x"] (.cons (.lit (.int 2)) .nil))))])]
+
+def valWhole : Block :=
+  .cons (.defRoutine "sq" ["x"] sqBody) (.cons (.defRoutine "fact" ["n"] factBody) valMain)
+
+def sqCode : List Instr := [
+  .push (.var "x"), .push (.var "x"), .op .mul, .pop (.reg .result), .ret]
+
+def factCode : List Instr := [
+  .push (.var "n"), .pushq (.int 1), .op .lte, .pop (.reg .result), .jump .ifFalse 3,
+  .moveq (.int 1) (.reg .result), .ret, .push (.var "n"), .ctx, .push (.var "n"), .pushq (.int 1),
+  .op .sub, .pop (.reg .result), .param "n" (.reg .result), .jsr "fact", .endCtx, .push (.reg .result),
+  .op .mul, .pop (.reg .result), .ret]
+
+def valMainCode : List Instr := [
+  .ctx, .moveq (.int 5) (.reg .result), .param "x" (.reg .result), .jsr "sq", .endCtx,
+  .move (.reg .result) (.var "y"), .pushq (.int 1), .ctx, .moveq (.int 3) (.reg .result),
+  .param "x" (.reg .result), .jsr "sq", .endCtx, .push (.reg .result), .pushq (.int 2), .op .mul, .op .add,
+  .pop (.reg .result), .out .register (.reg .result), .out .print (.lit .none), .ctx,
+  .moveq (.int 4) (.reg .result), .param "n" (.reg .result), .jsr "fact", .endCtx,
+  .out .register (.reg .result), .out .print (.lit .none), .ctx, .ctx, .moveq (.int 2) (.reg .result),
+  .param "x" (.reg .result), .jsr "sq", .endCtx, .param "x" (.reg .result), .jsr "sq", .endCtx,
+  .move (.reg .result) (.reg .hue), .move (.reg .hue) (.reg .result), .out .register (.reg .result),
+  .out .print (.lit .none), .loop, .ctx, .moveq (.int 1) (.reg .result), .param "x" (.reg .result),
+  .jsr "sq", .endCtx, .move (.reg .result) (.loopVar .counter), .push (.loopVar .counter), .pushq (.int 0),
+  .op .gt, .pop (.reg .result), .jump .ifFalse 9, .move (.var "y") (.reg .result),
+  .out .register (.reg .result), .out .print (.lit .none), .push (.loopVar .counter), .pushq (.int 1),
+  .op .sub, .pop (.loopVar .counter), .jump .always (-12), .endLoop, .ctx, .moveq (.int 3) (.reg .result),
+  .param "n" (.reg .result), .jsr "fact", .endCtx, .push (.reg .result), .pushq (.int 5), .op .gt,
+  .pop (.reg .result), .jump .ifFalse 4, .moveq (.str "big") (.reg .result), .out .register (.reg .result),
+  .out .print (.lit .none), .ctx, .moveq (.num ((13 : Rat)/5)) (.reg .result), .param "x" (.reg .result),
+  .jsr "round", .endCtx, .out .register (.reg .result), .out .print (.lit .none),
+  .out .printEnd (.lit .none), .loop, .moveq (.int 0) (.loopVar .counter),
+  .moveq (.str "b") (.reg .result), .push (.reg .result), .push (.loopVar .counter), .pushq (.int 1),
+  .op .add, .pop (.loopVar .counter), .moveq (.str "a") (.reg .result), .push (.reg .result),
+  .push (.loopVar .counter), .pushq (.int 1), .op .add, .pop (.loopVar .counter),
+  .push (.loopVar .counter), .pushq (.int 0), .op .gt, .pop (.reg .result), .jump .ifFalse 18,
+  .pop (.var "L"), .pushq (.int 10), .ctx, .moveq (.int 2) (.reg .result), .param "x" (.reg .result),
+  .jsr "sq", .endCtx, .push (.reg .result), .op .mul, .pop (.reg .result), .out .register (.reg .result),
+  .out .print (.lit .none), .push (.loopVar .counter), .pushq (.int 1), .op .sub, .pop (.loopVar .counter),
+  .jump .always (-21), .endLoop]
+
+def valImg : Image :=
+  ⟨(([Instr.jump .always 30, .routine "sq"] : List Instr) ++ (sqCode ++ [Instr.end_ "sq"]) ++
+      ([Instr.routine "fact"] ++ (factCode ++ [Instr.end_ "fact"]) ++ valMainCode)).toArray,
+   [("fact", 9), ("sq", 2)]⟩
+
+def valRoutines : List (String × Sem.Routine) := [("fact", ⟨["n"], factBody⟩), ("sq", ⟨["x"], sqBody⟩)]
+
+theorem sqBody_frag : FragBlock (fun _ => True) sqBody := by
+  simp only [sqBody, Block.ofList, FragBlock, FragStmt, RvC, ExprC, ArgsC]
+  exact ⟨⟨trivial, trivial⟩, trivial⟩
+
+theorem factBody_frag : FragBlock (fun _ => True) factBody := by
+  simp only [factBody, Block.ofList, FragBlock, FragStmt, RvC, ExprC, ArgsC]
+  refine ⟨⟨⟨trivial, trivial⟩, ⟨trivial, trivial⟩, trivial⟩, ⟨trivial, trivial, ?_, ⟨trivial, trivial⟩, trivial⟩, trivial⟩
+  decide
+
+theorem valMain_frag : FragBlock (fun _ => True) valMain := by
+  simp only [valMain, Block.ofList, FragBlock, FragStmt, RvC, ExprC, ArgsC, LoopHdrOK, OWithOK,
+    List.forall_mem_cons, ItemOK, List.not_mem_nil, false_imp_iff, implies_true]
+  refine ⟨?_, ?_, ?_, ?_, ?_, ?_, ?_, ?_, ?_, ?_⟩
+  all_goals first
+    | trivial
+    | decide
+    | (repeat' constructor) <;> first | trivial | decide | nofun
+
+set_option maxRecDepth 8000 in
+theorem sqBody_code : Gen.genProgram sqBody = some sqCode := by
+  simp [Gen.genProgram, sqBody, Block.ofList, genBlock, genStmt, genRv, genExpr, ins, result, pushLit, sqCode]
+
+set_option maxRecDepth 8000 in
+theorem factBody_code : Gen.genProgram factBody = some factCode := by
+  simp [Gen.genProgram, factBody, Block.ofList, genBlock, genStmt, genRv, genExpr, genIf, genCall, genParams, ins,
+    result, pushLit, factCode]
+
+set_option maxRecDepth 8000 in
+theorem valMain_code : Gen.genProgram valMain = some valMainCode := by
+  simp [Gen.genProgram, valMain, Block.ofList, genBlock, genStmt, genRv, genExpr, genIf, genLoop, genCall,
+    genParams, assembleLoop, patchBreaks_eq, patchRec, ins, counterTest, testOp, loopPost, counter, result, pushLit,
+    withClause, withVar, iterItems, iterItem, incCounter, valMainCode]
+
+/-- the image is what the loader makes of the compiled whole script -/
+example : (Loader.load ([Instr.routine "sq"] ++ sqCode ++ [Instr.end_ "sq"] ++ [Instr.routine "fact"] ++
+      factCode ++ [Instr.end_ "fact"] ++ valMainCode)).code.toList = valImg.code.toList ∧
+    (Loader.load ([Instr.routine "sq"] ++ sqCode ++ [Instr.end_ "sq"] ++ [Instr.routine "fact"] ++
+      factCode ++ [Instr.end_ "fact"] ++ valMainCode)).routines = valImg.routines := by decide +kernel
+
+theorem valImg_routines : RoutinesAt (fun _ => True) valImg valRoutines := by
+  intro name
+  by_cases h1 : name = "fact"
+  · subst h1
+    refine ⟨factBody_frag, fun _ => by simp [factBody, Block.ofList, EndsRet], 9, "fact", rfl, ?_⟩
+    rw [resolve_of_mapM _ _ factBody_code]
+    have := CodeAt.intro (([Instr.jump .always 30, .routine "sq"] : List Instr) ++ (sqCode ++ [Instr.end_ "sq"]) ++
+      [Instr.routine "fact"]) (factCode ++ [Instr.end_ "fact"]) valMainCode [("fact", 9), ("sq", 2)]
+    have hl : sqCode.length = 5 := rfl
+    simpa [valImg, hl] using this
+  · by_cases h2 : name = "sq"
+    · subst h2
+      refine ⟨sqBody_frag, fun _ => by simp [sqBody, Block.ofList, EndsRet], 2, "sq", rfl, ?_⟩
+      rw [resolve_of_mapM _ _ sqBody_code]
+      exact CodeAt.intro [Instr.jump .always 30, .routine "sq"] (sqCode ++ [Instr.end_ "sq"])
+        ([Instr.routine "fact"] ++ (factCode ++ [Instr.end_ "fact"]) ++ valMainCode) _
+    · have e1 : ("fact" == name) = false := by
+        simp only [beq_eq_false_iff_ne, ne_eq]; exact fun e => h1 e.symm
+      have e2 : ("sq" == name) = false := by
+        simp only [beq_eq_false_iff_ne, ne_eq]; exact fun e => h2 e.symm
+      simp [valRoutines, e1, e2, valImg, Image.routine?]
+
+theorem valMain_sem :
+    (execBlock 400 valMain { vm := Vm.init [], routines := valRoutines }).1 = .normal := by
+  decide +kernel
+
+/-- `C01_once_each_in_order` applied: started at the main code (where the initial jump leads),
+the machine leaves exactly the source-level trace -/
+example : ∃ k, (run valImg k { Vm.init [] with pc := 30 }).trace =
+    (execBlock 400 valMain { vm := Vm.init [], routines := valRoutines }).2.vm.trace := by
+  have hc : CodeAt valImg 30 valMainCode := by
+    have := CodeAt.intro (([Instr.jump .always 30, .routine "sq"] : List Instr) ++ (sqCode ++ [Instr.end_ "sq"]) ++
+      ([Instr.routine "fact"] ++ (factCode ++ [Instr.end_ "fact"]))) valMainCode [] [("fact", 9), ("sq", 2)]
+    have hl : sqCode.length = 5 := rfl
+    have hl2 : factCode.length = 20 := rfl
+    simpa [valImg, hl, hl2] using this
+  have hsim : Sim ⟨none, valRoutines⟩ {} { vm := Vm.init [], routines := valRoutines }
+      { Vm.init [] with pc := 30 } :=
+    ⟨rfl, rfl, LoopsOnly.nil, rfl, EvOk.nil, rfl, ⟨rfl, rfl⟩, rfl, ⟨⟨.logical, rfl⟩, rfl⟩, rfl, rfl, rfl, rfl, rfl, rfl, rfl,
+      fun _ _ => rfl⟩
+  obtain ⟨k, hk, _⟩ := C01_once_each_in_order valImg valRoutines valImg_routines valMain
+    valMain_frag valMainCode valMain_code 400 _ _ _ 30 hsim rfl hc (eq_of_fst valMain_sem)
+  exact ⟨k, hk⟩
+
+/-- by evaluation: the whole script (definitions first) through the loader and the machine, and
+through `Sem.run` -/
+example : (Vm.finish (Vm.run valImg 3000 (Vm.init []))).trace =
+    .flush :: (Sem.run 400 valWhole []).2.vm.trace := by decide +kernel
+
+example : (Sem.run 400 valWhole []).2.vm.trace.reverse =
+    [.out (.int 19), .out (.int 24), .out (.int 16), .out (.int 25), .out (.str "big"), .out (.int 3),
+     .newline, .out (.int 40), .out (.int 40)] := by decide +kernel
+
+/-! ### seventh example: the whole scripts of the third and of the sixth example — routine
+definitions at the top level, then the main code — through `C01_gen_sim_top`: compiled by
+`Gen.genProgram`, loaded by `Loader.load` (which moves the routines and builds the table), run
+from the machine's initial state to `halted`; nothing about the image is assumed. -/
+
+def valWholeCode : List Instr :=
+  [Instr.routine "sq"] ++ sqCode ++ [Instr.end_ "sq"] ++
+    ([Instr.routine "fact"] ++ factCode ++ [Instr.end_ "fact"] ++ valMainCode)
+
+theorem valWhole_top : TopBlock (fun _ => True) valWhole :=
+  ⟨⟨sqBody_frag, fun _ => by simp [sqBody, Block.ofList, EndsRet]⟩,
+   ⟨factBody_frag, fun _ => by simp [factBody, Block.ofList, EndsRet]⟩,
+   topBlock_of_frag valMain valMain_frag⟩
+
+theorem valWhole_code : Gen.genProgram valWhole = some valWholeCode :=
+  genProgram_cons_def sqBody_code (genProgram_cons_def factBody_code valMain_code)
+
+theorem valWhole_ws :
+    Closed.wsBlock (Wf.builtinNames ++ ["sq", "fact"]) false false false valWhole = true := by
+  decide +kernel
+
+theorem valWhole_sem : (Sem.run 400 valWhole []).1 = .normal := by decide +kernel
+
+example : ∃ k, (run (Loader.load valWholeCode) k (Vm.init [])).status = .halted ∧
+    (Vm.finish (run (Loader.load valWholeCode) k (Vm.init []))).trace =
+      .flush :: (Sem.run 400 valWhole []).2.vm.trace :=
+  C01_gen_sim_top _ valWhole valWhole_top valWhole_ws valWholeCode valWhole_code 400 []
+    (Sem.run 400 valWhole []).2 (eq_of_fst valWhole_sem)
+
+/-- the third example's script: the routine `down` is not called for its value (`V` empty), so
+its body need not end with a `return` -/
+theorem wholeScript_top : TopBlock (fun _ => False) wholeScript :=
+  ⟨⟨downBody_frag, fun h => h.elim⟩, topBlock_of_frag mainBlock mainBlock_frag⟩
+
+example : ∃ k, (run (Loader.load ([Instr.routine "down"] ++ downCode ++ [Instr.end_ "down"] ++ mainCode)) k
+      (Vm.init [])).status = .halted ∧
+    (Vm.finish (run (Loader.load ([Instr.routine "down"] ++ downCode ++ [Instr.end_ "down"] ++ mainCode)) k
+      (Vm.init []))).trace = .flush :: (Sem.run 200 wholeScript []).2.vm.trace :=
+  C01_gen_sim_top (Wf.builtinNames ++ ["down"]) wholeScript wholeScript_top (by decide +kernel) _
+    (genProgram_cons_def downBody_code mainBlock_code) 200 []
+    (Sem.run 200 wholeScript []).2 (eq_of_fst (by decide +kernel))
+
+/-! ### eighth example: routine definitions NESTED in an `if` branch and in a loop body (with a
+`break` that jumps over one of them), through `C01_gen_sim_defs`
+
+```
+if {1 > 0} { define sq with x begin return {x * x} end  print 1 } else { print 2 }
+repeat 2 {
+  print [sq 3]
+  define fact with n begin if {n <= 1} { return 1 }  return {n * fact(n - 1)} end
+  if {fact(3) > 5} { break }
+  print 99
+}
+println [fact 4]
+```
+The loader cuts both sections out and shortens three jumps of the main code (12 → 5 over `sq`,
+49 → 27 and −52 → −30 around `fact`; the patched `break`, 9, does not span a section). -/
+
+def nestedScript : Block := Block.ofList [
+  .ite (.expr (.bin .gt (.lit (.int 1)) (.lit (.int 0))))
+    (Block.ofList [.defRoutine "sq" ["x"] sqBody, .print (.lit (.int 1))])
+    (some (Block.ofList [.print (.lit (.int 2))])),
+  .repeat_ (.count (.lit (.int 2))) (Block.ofList [
+    .print (.call "sq" ["x"] (.cons (.lit (.int 3)) .nil)),
+    .defRoutine "fact" ["n"] factBody,
+    .ite (.expr (.bin .gt (.call "fact" ["n"] (.cons (.lit (.int 3)) .nil)) (.lit (.int 5))))
+      (Block.ofList [.brk]) none,
+    .print (.lit (.int 99))]),
+  .println (some (.call "fact" ["n"] (.cons (.lit (.int 4)) .nil)))]
+
+def nestedCode : List Instr :=
+  [.pushq (.int 1), .pushq (.int 0), .op .gt, .pop (.reg .result), .jump .ifFalse 12, .routine "sq"] ++
+  sqCode ++
+  [.end_ "sq", .moveq (.int 1) (.reg .result), .out .register (.reg .result), .out .print (.lit .none),
+   .jump .always 4, .moveq (.int 2) (.reg .result), .out .register (.reg .result),
+   .out .print (.lit .none), .loop, .moveq (.int 2) (.loopVar .counter), .push (.loopVar .counter),
+   .pushq (.int 0), .op .gt, .pop (.reg .result), .jump .ifFalse 49, .ctx,
+   .moveq (.int 3) (.reg .result), .param "x" (.reg .result), .jsr "sq", .endCtx,
+   .out .register (.reg .result), .out .print (.lit .none), .routine "fact"] ++
+  factCode ++
+  [.end_ "fact", .ctx, .moveq (.int 3) (.reg .result), .param "n" (.reg .result), .jsr "fact", .endCtx,
+   .push (.reg .result), .pushq (.int 5), .op .gt, .pop (.reg .result), .jump .ifFalse 2,
+   .jump .always 9, .moveq (.int 99) (.reg .result), .out .register (.reg .result),
+   .out .print (.lit .none), .push (.loopVar .counter), .pushq (.int 1), .op .sub,
+   .pop (.loopVar .counter), .jump .always (-52), .endLoop, .ctx, .moveq (.int 4) (.reg .result),
+   .param "n" (.reg .result), .jsr "fact", .endCtx, .out .register (.reg .result),
+   .out .print (.lit .none), .out .printEnd (.lit .none)]
+
+theorem nestedScript_def : DefBlock (fun _ => True) nestedScript := by
+  constructor
+  · simp only [nestedScript, Block.ofList, stripB, stripS, FragBlock, FragStmt, RvC, ExprC, ArgsC,
+      LoopHdrOK]
+    refine ⟨?_, ?_, ?_, ?_⟩
+    all_goals first
+      | trivial
+      | decide
+      | (repeat' constructor) <;> first | trivial | decide | nofun
+  · intro d hd
+    simp only [nestedScript, Block.ofList, Sem.collect, List.append_nil, List.cons_append,
+      List.nil_append, List.mem_cons, List.not_mem_nil, or_false] at hd
+    rcases hd with rfl | rfl
+    · exact ⟨sqBody_frag, fun _ => by simp [sqBody, Block.ofList, EndsRet]⟩
+    · exact ⟨factBody_frag, fun _ => by simp [factBody, Block.ofList, EndsRet]⟩
+
+set_option maxRecDepth 8000 in
+theorem nestedScript_code : Gen.genProgram nestedScript = some nestedCode := by
+  simp [Gen.genProgram, nestedScript, sqBody, factBody, Block.ofList, genBlock, genStmt, genRv, genExpr,
+    genIf, genLoop, genCall, genParams, assembleLoop, patchBreaks_eq, patchRec, ins, counterTest, testOp,
+    loopPost, counter, result, pushLit, nestedCode, sqCode, factCode]
+
+theorem nestedScript_ws :
+    Closed.wsBlock (Wf.builtinNames ++ ["sq", "fact"]) false false false nestedScript = true := by
+  decide +kernel
+
+theorem nestedScript_sem : (Sem.run 200 nestedScript []).1 = .normal := by decide +kernel
+
+example : ∃ k, (run (Loader.load nestedCode) k (Vm.init [])).status = .halted ∧
+    (Vm.finish (run (Loader.load nestedCode) k (Vm.init []))).trace =
+      .flush :: (Sem.run 200 nestedScript []).2.vm.trace :=
+  C01_gen_sim_defs _ nestedScript nestedScript_def nestedScript_ws nestedCode nestedScript_code 200 []
+    (Sem.run 200 nestedScript []).2 (eq_of_fst nestedScript_sem)
+
+/-- by evaluation: the three shortened jumps, the table, and the traces -/
+example : (Loader.load nestedCode).code[34]? = some (.jump .ifFalse 5) ∧
+    (Loader.load nestedCode).code[48]? = some (.jump .ifFalse 27) ∧
+    (Loader.load nestedCode).code[74]? = some (.jump .always (-30)) ∧
+    (Loader.load nestedCode).routines = [("fact", 9), ("sq", 2)] := by decide +kernel
+
+example : (Sem.run 200 nestedScript []).2.vm.trace.reverse =
+    [.out (.int 1), .out (.int 9), .out (.int 24), .newline] := by decide +kernel
+
+/-! ### ninth example: a routine defined inside the body of a matrix block
+
+```
+hue 10
+set "m" begin define f begin print 7 end  stage row 0 end
+f
+print 3
+```
+(the real implementation accepts this and prints 7 and 3; before `Sem.collect` looked into matrix
+blocks, `Sem` said "unknown routine f") -/
+
+def matScript : Block := Block.ofList [
+  .setReg .hue (.lit (.int 10)),
+  .action .set (.cons (.matrixBlock (.str "m") (Block.ofList [
+    .defRoutine "f" [] (Block.ofList [.print (.lit (.int 7))]),
+    .stage (some ⟨.lit (.int 0), none⟩) none false])) .nil),
+  .call "f" [] .nil,
+  .print (.lit (.int 3))]
+
+def matCode : List Instr := [
+  .moveq (.int 10) (.reg .hue), .wait, .moveq (.str "m") (.reg .name), .matrix, .routine "f",
+  .moveq (.int 7) (.reg .result), .out .register (.reg .result), .out .print (.lit .none), .end_ "f",
+  .moveq (.operand .matrix) (.reg .operand), .moveq (.int 0) (.reg .firstRow),
+  .moveq .none (.reg .lastRow), .moveq .none (.reg .firstColumn), .moveq .none (.reg .lastColumn),
+  .color, .endMatrix, .moveq (.operand .matrixLight) (.reg .operand), .color, .ctx, .jsr "f", .endCtx,
+  .moveq (.int 3) (.reg .result), .out .register (.reg .result), .out .print (.lit .none)]
+
+theorem matScript_def : DefBlock (fun _ => False) matScript := by
+  constructor
+  · simp only [matScript, Block.ofList, stripB, stripS, stripOps, stripOp, FragBlock, FragStmt, RvC,
+      ExprC, ArgsC, FragOperands, FragOperand, ORangeOK, RangeOK]
+    refine ⟨?_, ?_, ?_, ?_⟩
+    all_goals first
+      | trivial
+      | decide
+      | (repeat' constructor) <;> first | trivial | decide | nofun
+  · intro d hd
+    simp only [matScript, Block.ofList, Sem.collect, Sem.collectOps, List.append_nil, List.cons_append,
+      List.nil_append, List.mem_cons, List.not_mem_nil, or_false] at hd
+    subst hd
+    refine ⟨?_, fun h => h.elim⟩
+    simp only [Block.ofList, FragBlock, FragStmt, RvC]
+    exact ⟨trivial, trivial⟩
+
+set_option maxRecDepth 8000 in
+theorem matScript_code : Gen.genProgram matScript = some matCode := by
+  simp [Gen.genProgram, matScript, Block.ofList, genBlock, genStmt, genRv, genOperands, genOperand,
+    genName, genMatrixRanges, genRange, genCall, genParams, opcodeOf, ins, result, matCode]
+
+example : ∃ k, (run (Loader.load matCode) k (Vm.init c01Lights2)).status = .halted ∧
+    (Vm.finish (run (Loader.load matCode) k (Vm.init c01Lights2))).trace =
+      .flush :: (Sem.run 200 matScript c01Lights2).2.vm.trace :=
+  C01_gen_sim_defs (Wf.builtinNames ++ ["f"]) matScript matScript_def (by decide +kernel) matCode
+    matScript_code 200 c01Lights2 (Sem.run 200 matScript c01Lights2).2 (eq_of_fst (by decide +kernel))
+
+example : (Sem.run 200 matScript c01Lights2).2.vm.trace.reverse =
+    [.setTile "m" [[1820, 0, 0, 0], [1820, 0, 0, 0], [0, 0, 0, 0], [0, 0, 0, 0]] 0 2 2,
+     .out (.int 7), .out (.int 3)] := by decide +kernel
 
 /-! ### why the fragment excludes reading `result` and `setReg unitMode`: on these scripts the
 source semantics and the machine (both of the MODEL) disagree
